@@ -31,47 +31,1965 @@ structure SourceWF (env : Env) (s : Source) : Prop where
   const_plain : ∀ x ∈ s.nodes, x.op = none → x.observable = false ∧ x.usesObserved = false ∧ x.stochastic = false ∧
     x.usesBatchSize = false ∧ x.usesMeta = false ∧ s.inEdges x.name = []
 
-theorem compiled_meaning_user' (env : Env) (s : Source) (hwf : SourceWF env s) (outputs : List Nat)
+/-! ### helper lemmas -/
+
+theorem mem_compileAll_edges (env : Env) (s : Source) (e : Edge) : e ∈ (compileAll env s).2 ↔
+    e ∈ s.edges ∨
+    (∃ x ∈ s.nodes, (!x.observable && x.usesObserved) = true ∧
+        e = ⟨env.twin x.name, x.name, .named env.kwObserved⟩) ∨
+    (∃ x ∈ s.nodes, (hasTwin x && !x.stochastic) = true ∧ ∃ e' ∈ s.inEdges x.name,
+        e = ⟨if s.isObservable e'.src then env.twin e'.src else e'.src, env.twin x.name, e'.param⟩) ∨
+    (∃ x ∈ s.nodes, x.usesBatchSize = true ∧ e = ⟨env.bs, x.name, .named env.kwBatchSize⟩) ∨
+    (∃ x ∈ s.nodes, x.usesMeta = true ∧ e = ⟨env.mt, x.name, .named env.kwMeta⟩) ∨
+    (∃ x ∈ s.nodes, x.stochastic = true ∧ e = ⟨env.rs, x.name, .named env.kwRandomState⟩) := by
+  simp only [compileAll, List.mem_append, List.mem_map, List.mem_filter, List.mem_flatMap, or_assoc]
+  constructor
+  · rintro (h | ⟨x, ⟨hx, hp⟩, rfl⟩ | ⟨x, ⟨hx, hp⟩, e', he', rfl⟩ | ⟨x, ⟨hx, hp⟩, rfl⟩ | ⟨x, ⟨hx, hp⟩, rfl⟩ | ⟨x, ⟨hx, hp⟩, rfl⟩)
+    · exact Or.inl h
+    · exact Or.inr (Or.inl ⟨x, hx, hp, rfl⟩)
+    · exact Or.inr (Or.inr (Or.inl ⟨x, hx, hp, e', he', rfl⟩))
+    · exact Or.inr (Or.inr (Or.inr (Or.inl ⟨x, hx, hp, rfl⟩)))
+    · exact Or.inr (Or.inr (Or.inr (Or.inr (Or.inl ⟨x, hx, hp, rfl⟩))))
+    · exact Or.inr (Or.inr (Or.inr (Or.inr (Or.inr ⟨x, hx, hp, rfl⟩))))
+  · rintro (h | ⟨x, hx, hp, rfl⟩ | ⟨x, hx, hp, e', he', rfl⟩ | ⟨x, hx, hp, rfl⟩ | ⟨x, hx, hp, rfl⟩ | ⟨x, hx, hp, rfl⟩)
+    · exact Or.inl h
+    · exact Or.inr (Or.inl ⟨x, ⟨hx, hp⟩, rfl⟩)
+    · exact Or.inr (Or.inr (Or.inl ⟨x, ⟨hx, hp⟩, e', he', rfl⟩))
+    · exact Or.inr (Or.inr (Or.inr (Or.inl ⟨x, ⟨hx, hp⟩, rfl⟩)))
+    · exact Or.inr (Or.inr (Or.inr (Or.inr (Or.inl ⟨x, ⟨hx, hp⟩, rfl⟩))))
+    · exact Or.inr (Or.inr (Or.inr (Or.inr (Or.inr ⟨x, ⟨hx, hp⟩, rfl⟩))))
+
+
+theorem SourceWF.node_ext {env : Env} {s : Source} (hwf : SourceWF env s) {x y : SNode}
+    (hx : x ∈ s.nodes) (hy : y ∈ s.nodes) (h : x.name = y.name) : x = y :=
+  List.inj_on_of_nodup_map hwf.names_nodup hx hy h
+
+
+
+/-! ### rank compression and completeness of bounded reachability -/
+
+theorem length_filter_le_of_imp {α : Type _} (P Q : α → Bool) (l : List α)
+    (hPQ : ∀ v ∈ l, P v = true → Q v = true) : (l.filter P).length ≤ (l.filter Q).length := by
+  induction l with
+  | nil => simp
+  | cons b l ih =>
+    have ih' := ih (fun v hv => hPQ v (List.mem_cons_of_mem _ hv))
+    have hb := hPQ b List.mem_cons_self
+    simp only [List.filter_cons]
+    by_cases hp : P b = true
+    · simp only [hp, hb hp, if_true, List.length_cons]; omega
+    · simp only [hp]
+      by_cases hq : Q b = true
+      · simp only [hq, if_true, List.length_cons]; simp; omega
+      · simp only [hq]; simpa using ih'
+
+theorem length_filter_lt_of_imp {α : Type _} (P Q : α → Bool) (l : List α) (a : α)
+    (hPQ : ∀ v ∈ l, P v = true → Q v = true) (ha : a ∈ l) (hQ : Q a = true) (hP : P a = false) :
+    (l.filter P).length < (l.filter Q).length := by
+  induction l with
+  | nil => simp at ha
+  | cons b l ih =>
+    have hle := length_filter_le_of_imp P Q l (fun v hv => hPQ v (List.mem_cons_of_mem _ hv))
+    have hb := hPQ b List.mem_cons_self
+    simp only [List.filter_cons]
+    rcases List.mem_cons.1 ha with rfl | ha'
+    · simp [hP, hQ]; omega
+    · have ih' := ih (fun v hv => hPQ v (List.mem_cons_of_mem _ hv)) ha'
+      by_cases hp : P b = true
+      · simp only [hp, hb hp, if_true, List.length_cons]; omega
+      · simp only [hp]
+        by_cases hq : Q b = true
+        · simp only [hq, if_true, List.length_cons]; simp; omega
+        · simp only [hq]; simpa using ih'
+
+def crank (names : List Nat) (r : Nat → Nat) (n : Nat) : Nat :=
+  (names.filter (fun v => decide (r v < r n))).length
+
+theorem crank_le_of_le (names : List Nat) (r : Nat → Nat) {p n : Nat} (h : r p ≤ r n) :
+    crank names r p ≤ crank names r n := by
+  unfold crank
+  apply length_filter_le_of_imp
+  intro v _ hv
+  simp only [decide_eq_true_eq] at hv ⊢
+  omega
+
+theorem crank_lt_of_lt (names : List Nat) (r : Nat → Nat) {p n : Nat} (hp : p ∈ names) (h : r p < r n) :
+    crank names r p < crank names r n := by
+  unfold crank
+  apply length_filter_lt_of_imp _ _ _ p _ hp
+  · simpa using h
+  · simp
+  · intro v _ hv
+    simp only [decide_eq_true_eq] at hv ⊢
+    omega
+
+theorem crank_le_length (names : List Nat) (r : Nat → Nat) (n : Nat) : crank names r n ≤ names.length :=
+  List.length_filter_le _ _
+
+theorem crank_lt_length (names : List Nat) (r : Nat → Nat) {n : Nat} (hn : n ∈ names) :
+    crank names r n < names.length := by
+  have := length_filter_lt_of_imp (fun v => decide (r v < r n)) (fun _ => true) names n
+    (fun _ _ _ => rfl) hn rfl (by simp)
+  simpa [crank] using this
+
+theorem reaches_self (edges : List Edge) (f a : Nat) : reaches edges f a a = true := by
+  cases f <;> simp [reaches]
+
+theorem reaches_succ (edges : List Edge) : ∀ (f a b : Nat), reaches edges f a b = true →
+    reaches edges (f + 1) a b = true := by
+  intro f
+  induction f with
+  | zero => intro a b h; simp only [reaches] at h; simp [reaches, h]
+  | succ f ih =>
+    intro a b h
+    rw [reaches] at h ⊢
+    simp only [Bool.or_eq_true, List.any_eq_true, Bool.and_eq_true] at h ⊢
+    rcases h with h | ⟨e, he, hs, hr⟩
+    · exact Or.inl h
+    · exact Or.inr ⟨e, he, hs, ih _ _ hr⟩
+
+theorem reaches_mono (edges : List Edge) {f f' : Nat} (hff : f ≤ f') {a b : Nat}
+    (h : reaches edges f a b = true) : reaches edges f' a b = true := by
+  induction hff with
+  | refl => exact h
+  | step _ ih => exact reaches_succ _ _ _ _ ih
+
+theorem reaches_step (edges : List Edge) {e : Edge} (he : e ∈ edges) {f b : Nat}
+    (h : reaches edges f e.dst b = true) : reaches edges (f + 1) e.src b = true := by
+  rw [reaches]
+  simp only [Bool.or_eq_true, List.any_eq_true, Bool.and_eq_true]
+  exact Or.inr ⟨e, he, by simp, h⟩
+
+theorem reaches_rank_le (edges : List Edge) (r : Nat → Nat) (hr : ∀ e ∈ edges, r e.src < r e.dst) :
+    ∀ (f a b : Nat), reaches edges f a b = true → r a ≤ r b := by
+  intro f
+  induction f with
+  | zero => intro a b h; simp only [reaches, beq_iff_eq] at h; rw [h]
+  | succ f ih =>
+    intro a b h
+    rw [reaches] at h
+    simp only [Bool.or_eq_true, List.any_eq_true, Bool.and_eq_true, beq_iff_eq] at h
+    rcases h with h | ⟨e, he, hs, hre⟩
+    · rw [h]
+    · have := ih _ _ hre
+      have := hr e he
+      rw [← hs]; omega
+
+theorem reaches_bound (edges : List Edge) (names : List Nat) (r : Nat → Nat)
+    (hr : ∀ e ∈ edges, r e.src < r e.dst) (hsrc : ∀ e ∈ edges, e.src ∈ names) :
+    ∀ (f a b : Nat), reaches edges f a b = true →
+      reaches edges (crank names r b - crank names r a) a b = true := by
+  intro f
+  induction f with
+  | zero => intro a b h; simp only [reaches, beq_iff_eq] at h; subst h; exact reaches_self _ _ _
+  | succ f ih =>
+    intro a b h
+    rw [reaches] at h
+    simp only [Bool.or_eq_true, List.any_eq_true, Bool.and_eq_true, beq_iff_eq] at h
+    rcases h with h | ⟨e, he, hs, hre⟩
+    · subst h; exact reaches_self _ _ _
+    · have h1 := ih _ _ hre
+      have h2 := reaches_rank_le edges r hr _ _ _ hre
+      have h3 : crank names r e.src < crank names r e.dst := crank_lt_of_lt names r (hsrc e he) (hr e he)
+      have h4 : crank names r e.dst ≤ crank names r b := crank_le_of_le names r h2
+      have h5 := reaches_step edges he h1
+      rw [hs] at h5 h3
+      exact reaches_mono edges (by omega) h5
+
+theorem reaches_complete (edges : List Edge) (names : List Nat) (r : Nat → Nat)
+    (hr : ∀ e ∈ edges, r e.src < r e.dst) (hsrc : ∀ e ∈ edges, e.src ∈ names)
+    {f a b : Nat} (h : reaches edges f a b = true) : reaches edges names.length a b = true := by
+  have := reaches_bound edges names r hr hsrc f a b h
+  exact reaches_mono edges (by have := crank_le_length names r b; omega) this
+
+
+/-! ### permutation invariance of `applyOp` -/
+
+
+theorem insertPos_perm (x : Nat × Term) (l : List (Nat × Term)) : (insertPos x l).Perm (x :: l) := by
+  induction l with
+  | nil => exact List.Perm.refl _
+  | cons y ys ih =>
+    unfold insertPos
+    split
+    · exact List.Perm.refl _
+    · exact ((List.Perm.cons y ih).trans (List.Perm.swap x y ys))
+
+theorem sortByKey_nil : sortByKey [] = [] := rfl
+
+theorem sortByKey_cons (x : Nat × Term) (l : List (Nat × Term)) :
+    sortByKey (x :: l) = insertPos x (sortByKey l) := rfl
+
+theorem sortByKey_perm (l : List (Nat × Term)) : (sortByKey l).Perm l := by
+  induction l with
+  | nil => exact List.Perm.refl _
+  | cons x xs ih =>
+    rw [sortByKey_cons]
+    exact (insertPos_perm x _).trans (List.Perm.cons x ih)
+
+theorem insertPos_sorted (x : Nat × Term) (l : List (Nat × Term))
+    (h : l.Pairwise (fun a b => a.1 ≤ b.1)) : (insertPos x l).Pairwise (fun a b => a.1 ≤ b.1) := by
+  induction l with
+  | nil => simp [insertPos]
+  | cons y ys ih =>
+    unfold insertPos
+    rw [List.pairwise_cons] at h
+    split
+    · rename_i hxy
+      rw [List.pairwise_cons]
+      refine ⟨?_, List.pairwise_cons.mpr h⟩
+      intro b hb
+      rcases List.mem_cons.mp hb with rfl | hb
+      · exact hxy
+      · exact Nat.le_trans hxy (h.1 b hb)
+    · rename_i hxy
+      rw [List.pairwise_cons]
+      refine ⟨?_, ih h.2⟩
+      intro b hb
+      have hb' := (insertPos_perm x ys).subset hb
+      rcases List.mem_cons.mp hb' with rfl | hb'
+      · omega
+      · exact h.1 b hb'
+
+theorem sortByKey_sorted (l : List (Nat × Term)) : (sortByKey l).Pairwise (fun a b => a.1 ≤ b.1) := by
+  induction l with
+  | nil => simp [sortByKey]
+  | cons x xs ih =>
+    rw [sortByKey_cons]
+    exact insertPos_sorted x _ ih
+
+theorem sortByKey_congr (l1 l2 : List (Nat × Term)) (hp : l1.Perm l2)
+    (hk : ∀ a ∈ l1, ∀ b ∈ l1, a.1 = b.1 → a = b) : sortByKey l1 = sortByKey l2 := by
+  refine List.Perm.eq_of_pairwise (le := fun a b => a.1 ≤ b.1) ?_ (sortByKey_sorted l1)
+    (sortByKey_sorted l2) (((sortByKey_perm l1).trans hp).trans (sortByKey_perm l2).symm)
+  intro a b ha hb hab hba
+  have ha' : a ∈ l1 := (sortByKey_perm l1).subset ha
+  have hb' : b ∈ l1 := hp.symm.subset ((sortByKey_perm l2).subset hb)
+  exact hk a ha' b hb' (Nat.le_antisymm hab hba)
+
+theorem mem_filterMap_pos (ins : List (Param × Term)) (x : Nat × Term) :
+    x ∈ ins.filterMap (fun p => match p.1 with | .pos i => some (i, p.2) | .named _ => none) ↔
+      (Param.pos x.1, x.2) ∈ ins := by
+  rw [List.mem_filterMap]
+  constructor
+  · rintro ⟨⟨p, t⟩, hm, h⟩
+    cases p with
+    | pos i => simp only [Option.some.injEq] at h; subst h; exact hm
+    | named k => simp at h
+  · intro h
+    exact ⟨_, h, rfl⟩
+
+theorem mem_filterMap_named (ins : List (Param × Term)) (x : Nat × Term) :
+    x ∈ ins.filterMap (fun p => match p.1 with | .named k => some (k, p.2) | .pos _ => none) ↔
+      (Param.named x.1, x.2) ∈ ins := by
+  rw [List.mem_filterMap]
+  constructor
+  · rintro ⟨⟨p, t⟩, hm, h⟩
+    cases p with
+    | named k => simp only [Option.some.injEq] at h; subst h; exact hm
+    | pos i => simp at h
+  · intro h
+    exact ⟨_, h, rfl⟩
+
+theorem applyOp_perm (op : COp) (ins1 ins2 : List (Param × Term)) (hp : ins1.Perm ins2)
+    (hk : ∀ a ∈ ins1, ∀ b ∈ ins1, a.1 = b.1 → a = b) : applyOp op ins1 = applyOp op ins2 := by
+  have h1 : sortByKey (ins1.filterMap (fun p => match p.1 with | .pos i => some (i, p.2) | .named _ => none))
+      = sortByKey (ins2.filterMap (fun p => match p.1 with | .pos i => some (i, p.2) | .named _ => none)) := by
+    apply sortByKey_congr _ _ (hp.filterMap _)
+    intro a ha b hb hab
+    rw [mem_filterMap_pos] at ha hb
+    have := hk _ ha _ hb (by simp only [hab])
+    simp only [Prod.mk.injEq] at this
+    exact Prod.ext hab this.2
+  have h2 : sortByKey (ins1.filterMap (fun p => match p.1 with | .named k => some (k, p.2) | .pos _ => none))
+      = sortByKey (ins2.filterMap (fun p => match p.1 with | .named k => some (k, p.2) | .pos _ => none)) := by
+    apply sortByKey_congr _ _ (hp.filterMap _)
+    intro a ha b hb hab
+    rw [mem_filterMap_named] at ha hb
+    have := hk _ ha _ hb (by simp only [hab])
+    simp only [Prod.mk.injEq] at this
+    exact Prod.ext hab this.2
+  cases op with
+  | user f =>
+    have key : ∀ a1 a2 k1 k2 : List (Nat × Term), a1 = a2 → k1 = k2 →
+        Term.app f (a1.map (·.2)) k1 = Term.app f (a2.map (·.2)) k2 := by
+      intro a1 a2 k1 k2 ha hk; rw [ha, hk]
+    exact key _ _ _ _ h1 h2
+  | argsToTuple =>
+    have key : ∀ a1 a2 : List (Nat × Term), a1 = a2 →
+        Term.tuple (a1.map (·.2)) = Term.tuple (a2.map (·.2)) := by
+      intro a1 a2 ha; rw [ha]
+    exact key _ _ h1
+
+theorem applyOp_nil_eq (op : COp) : applyOp op [] =
+    (match op with | .user f => Term.app f [] [] | .argsToTuple => Term.tuple []) := by
+  cases op <;> rfl
+
+
+
+/-! ### structure of the compiled net -/
+
+def keepF (env : Env) (s : Source) (outputs : List Nat) (n : Nat) : Bool :=
+  outputs.any (fun o => reaches (compileAll env s).2 (compileAll env s).1.length n o)
+
+theorem compile_ok {env : Env} {s : Source} {outputs : List Nat} {c : CNet}
+    (hc : compile env s outputs = .ok c) :
+    c = ⟨(compileAll env s).1.filter (fun x => keepF env s outputs x.name),
+         (compileAll env s).2.filter (fun e => keepF env s outputs e.src && keepF env s outputs e.dst),
+         outputs⟩ := by
+  unfold compile at hc
+  split at hc
+  · cases hc
+  · simp only [Except.ok.injEq] at hc
+    rw [← hc]; rfl
+
+theorem mem_compileAll_names_user (env : Env) (s : Source) {x : SNode} (hx : x ∈ s.nodes) :
+    x.name ∈ (compileAll env s).1.map (·.name) := by
+  simp only [compileAll, List.map_append, List.mem_append, List.mem_map]
+  refine Or.inl (Or.inl ⟨compiledOf x, ⟨x, hx, rfl⟩, ?_⟩)
+  unfold compiledOf; split <;> rfl
+
+theorem mem_compileAll_names_twin (env : Env) (s : Source) {x : SNode} (hx : x ∈ s.nodes)
+    (ht : hasTwin x = true) : env.twin x.name ∈ (compileAll env s).1.map (·.name) := by
+  simp only [compileAll, List.map_append, List.mem_append, List.mem_map, List.mem_filter]
+  refine Or.inl (Or.inr ⟨_, ⟨x, ⟨hx, ht⟩, rfl⟩, ?_⟩)
+  split <;> rfl
+
+theorem mem_compileAll_names_bs (env : Env) (s : Source) {x : SNode} (hx : x ∈ s.nodes)
+    (h : x.usesBatchSize = true) : env.bs ∈ (compileAll env s).1.map (·.name) := by
+  have : s.nodes.any (·.usesBatchSize) = true := List.any_eq_true.2 ⟨x, hx, h⟩
+  simp [compileAll, this]
+
+theorem mem_compileAll_names_mt (env : Env) (s : Source) {x : SNode} (hx : x ∈ s.nodes)
+    (h : x.usesMeta = true) : env.mt ∈ (compileAll env s).1.map (·.name) := by
+  have : s.nodes.any (·.usesMeta) = true := List.any_eq_true.2 ⟨x, hx, h⟩
+  simp [compileAll, this]
+
+theorem mem_compileAll_names_rs (env : Env) (s : Source) {x : SNode} (hx : x ∈ s.nodes)
+    (h : x.stochastic = true) : env.rs ∈ (compileAll env s).1.map (·.name) := by
+  have : s.nodes.any (·.stochastic) = true := List.any_eq_true.2 ⟨x, hx, h⟩
+  simp [compileAll, this]
+
+theorem Source.isObservable_eq {env : Env} {s : Source} (hwf : SourceWF env s) {z : SNode} (hz : z ∈ s.nodes) :
+    s.isObservable z.name = z.observable := by
+  have : s.find z.name = some z := by
+    unfold Source.find
+    rw [List.find?_eq_some_iff_append]
+    refine ⟨by simp, ?_⟩
+    obtain ⟨as, bs, hab⟩ := List.append_of_mem hz
+    refine ⟨as, bs, hab, ?_⟩
+    intro a ha
+    simp only [Bool.not_eq_eq_eq_not, Bool.not_true, beq_eq_false_iff_ne, ne_eq]
+    intro hn
+    have hnd := hwf.names_nodup
+    rw [hab] at hnd
+    simp only [List.map_append, List.map_cons] at hnd
+    have := (List.nodup_append.1 hnd).2.2 a.name (List.mem_map.2 ⟨a, ha, rfl⟩) z.name (by simp)
+    exact this hn
+  simp [Source.isObservable, this]
+
+theorem compileAll_edge_src_mem {env : Env} {s : Source} (hwf : SourceWF env s) :
+    ∀ e ∈ (compileAll env s).2, e.src ∈ (compileAll env s).1.map (·.name) := by
+  intro e he
+  rcases (mem_compileAll_edges env s _).1 he with h | ⟨y, hy, hp, rfl⟩ | ⟨y, hy, hp, e', he', rfl⟩ |
+      ⟨y, hy, hp, rfl⟩ | ⟨y, hy, hp, rfl⟩ | ⟨y, hy, hp, rfl⟩
+  · obtain ⟨z, hz, hzn⟩ := (hwf.edges_in _ h).1
+    rw [← hzn]; exact mem_compileAll_names_user env s hz
+  · simp only [Bool.and_eq_true, Bool.not_eq_true'] at hp
+    exact mem_compileAll_names_twin env s hy (by simp [hasTwin, hp.2])
+  · have he'' : e' ∈ s.edges := (List.mem_filter.1 he').1
+    obtain ⟨z, hz, hzn⟩ := (hwf.edges_in _ he'').1
+    dsimp only
+    rw [← hzn, Source.isObservable_eq hwf hz]
+    split
+    · rename_i h; exact mem_compileAll_names_twin env s hz (by simp [hasTwin, h])
+    · exact mem_compileAll_names_user env s hz
+  · exact mem_compileAll_names_bs env s hy hp
+  · exact mem_compileAll_names_mt env s hy hp
+  · exact mem_compileAll_names_rs env s hy hp
+
+/-- a rank function on the compiled graph -/
+def crk (env : Env) (s : Source) (r : Nat → Nat) (m : Nat) : Nat :=
+  if s.nodes.any (fun x => x.name == m) then 2 * r m + 2
+  else match s.nodes.find? (fun x => env.twin x.name == m) with
+    | some x => 2 * r x.name + 1
+    | none => 0
+
+theorem crk_user (env : Env) (s : Source) (r : Nat → Nat) {x : SNode} (hx : x ∈ s.nodes) :
+    crk env s r x.name = 2 * r x.name + 2 := by
+  have : s.nodes.any (fun y => y.name == x.name) = true := List.any_eq_true.2 ⟨x, hx, by simp⟩
+  simp [crk, this]
+
+theorem crk_twin {env : Env} {s : Source} (hwf : SourceWF env s) (r : Nat → Nat) {x : SNode} (hx : x ∈ s.nodes) :
+    crk env s r (env.twin x.name) = 2 * r x.name + 1 := by
+  have h1 : s.nodes.any (fun y => y.name == env.twin x.name) = false := by
+    rw [Bool.eq_false_iff]
+    intro h
+    obtain ⟨y, hy, hyn⟩ := List.any_eq_true.1 h
+    exact hwf.twin_fresh x hx ⟨y, hy, by simpa using hyn⟩
+  unfold crk
+  rw [h1]
+  simp only [Bool.false_eq_true, if_false]
+  cases hf : s.nodes.find? (fun y => env.twin y.name == env.twin x.name) with
+  | none =>
+    have := List.find?_eq_none.1 hf x hx
+    simp at this
+  | some y =>
+    have h2 := List.find?_some hf
+    have h3 := List.mem_of_find?_eq_some hf
+    simp only [beq_iff_eq] at h2
+    simp only
+    rw [hwf.twin_inj y h3 x hx h2]
+
+theorem crk_instr {env : Env} {s : Source} (hwf : SourceWF env s) (r : Nat → Nat) {n : Nat}
+    (hn : n = env.bs ∨ n = env.mt ∨ n = env.rs) : crk env s r n = 0 := by
+  have hI := hwf.instr_fresh n hn
+  have h1 : s.nodes.any (fun y => y.name == n) = false := by
+    rw [Bool.eq_false_iff]
+    intro h
+    obtain ⟨y, hy, hyn⟩ := List.any_eq_true.1 h
+    exact hI.1 ⟨y, hy, by simpa using hyn⟩
+  unfold crk
+  rw [h1]
+  simp only [Bool.false_eq_true, if_false]
+  cases hf : s.nodes.find? (fun y => env.twin y.name == n) with
+  | none => rfl
+  | some y =>
+    have h2 := List.find?_some hf
+    have h3 := List.mem_of_find?_eq_some hf
+    simp only [beq_iff_eq] at h2
+    exact absurd h2 (hI.2 y h3)
+
+theorem compileAll_edge_rank {env : Env} {s : Source} (hwf : SourceWF env s) (r : Nat → Nat)
+    (hr : ∀ e ∈ s.edges, r e.src < r e.dst) :
+    ∀ e ∈ (compileAll env s).2, crk env s r e.src < crk env s r e.dst := by
+  intro e he
+  rcases (mem_compileAll_edges env s _).1 he with h | ⟨y, hy, hp, rfl⟩ | ⟨y, hy, hp, e', he', rfl⟩ |
+      ⟨y, hy, hp, rfl⟩ | ⟨y, hy, hp, rfl⟩ | ⟨y, hy, hp, rfl⟩
+  · obtain ⟨z, hz, hzn⟩ := (hwf.edges_in _ h).1
+    obtain ⟨w, hw, hwn⟩ := (hwf.edges_in _ h).2
+    have := hr e h
+    rw [← hzn, ← hwn, crk_user env s r hz, crk_user env s r hw, hzn, hwn]; omega
+  · rw [crk_user env s r hy, crk_twin hwf r hy]; omega
+  · have he'' : e' ∈ s.edges := (List.mem_filter.1 he').1
+    have hd : e'.dst = y.name := by simpa using (List.mem_filter.1 he').2
+    obtain ⟨z, hz, hzn⟩ := (hwf.edges_in _ he'').1
+    have := hr e' he''
+    rw [hd, ← hzn] at this
+    dsimp only
+    rw [crk_twin hwf r hy]
+    split
+    · rw [← hzn, crk_twin hwf r hz]; omega
+    · rw [← hzn, crk_user env s r hz]; omega
+  · rw [crk_user env s r hy, crk_instr hwf r (Or.inl rfl)]; omega
+  · rw [crk_user env s r hy, crk_instr hwf r (Or.inr (Or.inl rfl))]; omega
+  · rw [crk_user env s r hy, crk_instr hwf r (Or.inr (Or.inr rfl))]; omega
+
+theorem keepF_closed {env : Env} {s : Source} (hwf : SourceWF env s) (outputs : List Nat)
+    {e : Edge} (he : e ∈ (compileAll env s).2) (hk : keepF env s outputs e.dst = true) :
+    keepF env s outputs e.src = true := by
+  obtain ⟨r, hr, _⟩ := hwf.acyclic
+  unfold keepF at hk ⊢
+  obtain ⟨o, ho, hre⟩ := List.any_eq_true.1 hk
+  refine List.any_eq_true.2 ⟨o, ho, ?_⟩
+  have h1 := reaches_step _ he hre
+  have := reaches_complete (compileAll env s).2 ((compileAll env s).1.map (·.name)) (crk env s r)
+    (compileAll_edge_rank hwf r hr) (compileAll_edge_src_mem hwf) h1
+  simpa using this
+
+theorem keepF_output (env : Env) (s : Source) {outputs : List Nat} {o : Nat} (ho : o ∈ outputs) :
+    keepF env s outputs o = true :=
+  List.any_eq_true.2 ⟨o, ho, reaches_self _ _ _⟩
+
+/-! ### one evaluation step, parameterised by the evaluation of the parents -/
+
+/-- the inputs of node `n`: one entry per in-edge -/
+def insOf (edges : List Edge) (ev : Nat → Option Term) (n : Nat) : List (Option (Param × Term)) :=
+  (edges.filter (fun e => e.dst == n)).map (fun e => (ev e.src).map (fun t => (e.param, t)))
+
+theorem insOf_congr {edges : List Edge} {ev ev' : Nat → Option Term} {n : Nat}
+    (h : ∀ e ∈ edges, e.dst = n → ev e.src = ev' e.src) : insOf edges ev n = insOf edges ev' n := by
+  unfold insOf
+  apply List.map_congr_left
+  intro e he
+  simp only [List.mem_filter, beq_iff_eq] at he
+  rw [h e he.1 he.2]
+
+theorem insOf_all {edges : List Edge} {ev : Nat → Option Term} {n : Nat} :
+    (insOf edges ev n).all (·.isSome) = true ↔
+      ∀ e ∈ edges, e.dst = n → (ev e.src).isSome = true := by
+  unfold insOf
+  simp only [List.all_eq_true, List.mem_map, List.mem_filter, beq_iff_eq]
+  constructor
+  · intro h e he hd
+    have := h _ ⟨e, ⟨he, hd⟩, rfl⟩
+    simpa using this
+  · rintro h _ ⟨e, ⟨he, hd⟩, rfl⟩
+    simpa using h e he hd
+
+def evalStep (c : CNet) (ev : Nat → Option Term) (n : Nat) : Option Term :=
+  match c.find n with
+  | none => none
+  | some x =>
+    match x.output, x.op with
+    | some t, _ => some t
+    | none, none => none
+    | none, some op =>
+      if (insOf c.edges ev n).all (·.isSome) then
+        some (applyOp op ((insOf c.edges ev n).filterMap id)) else none
+
+theorem evalNode_zero (c : CNet) (n : Nat) : evalNode c 0 n = none := by
+  rw [evalNode]
+
+theorem evalNode_succ_eq (c : CNet) (f n : Nat) :
+    evalNode c (f + 1) n = evalStep c (evalNode c f) n := by
+  rw [evalNode]; rfl
+
+theorem evalStep_eq_some {c : CNet} {ev : Nat → Option Term} {n : Nat} {t : Term} :
+    evalStep c ev n = some t ↔
+      ∃ x, c.find n = some x ∧
+        (x.output = some t ∨
+          (x.output = none ∧ ∃ op, x.op = some op ∧
+            (insOf c.edges ev n).all (·.isSome) = true ∧
+            t = applyOp op ((insOf c.edges ev n).filterMap id))) := by
+  unfold evalStep
+  cases hx : c.find n with
+  | none => simp
+  | some x =>
+    simp only [Option.some.injEq, exists_eq_left']
+    cases ho : x.output with
+    | some t' => simp
+    | none =>
+      cases hop : x.op with
+      | none => simp
+      | some op =>
+        simp only [Option.some.injEq, exists_eq_left', true_and, reduceCtorEq, false_or]
+        split
+        · rename_i hall
+          simp only [Option.some.injEq, hall, true_and]
+          exact eq_comm
+        · rename_i hall
+          simp [hall]
+
+theorem evalStep_mono_local {c : CNet} {ev ev' : Nat → Option Term} {n : Nat} {t : Term}
+    (h : ∀ e ∈ c.edges, e.dst = n → ∀ t, ev e.src = some t → ev' e.src = some t)
+    (hs : evalStep c ev n = some t) : evalStep c ev' n = some t := by
+  rw [evalStep_eq_some] at hs ⊢
+  obtain ⟨x, hx, hcase⟩ := hs
+  refine ⟨x, hx, ?_⟩
+  rcases hcase with ho | ⟨ho, op, hop, hall, ht⟩
+  · exact Or.inl ho
+  · have hc : insOf c.edges ev n = insOf c.edges ev' n := by
+      apply insOf_congr
+      intro e he hd
+      have := (insOf_all.mp hall) e he hd
+      obtain ⟨te, hte⟩ := Option.isSome_iff_exists.mp this
+      rw [hte, h e he hd te hte]
+    exact Or.inr ⟨ho, op, hop, hc ▸ hall, hc ▸ ht⟩
+
+/-! ### fuel monotonicity -/
+
+theorem evalNode_succ_mono (l : CNet) :
+    ∀ (f n : Nat) (t : Term), evalNode l f n = some t → evalNode l (f + 1) n = some t := by
+  intro f
+  induction f with
+  | zero => intro n t h; simp [evalNode_zero] at h
+  | succ f ih =>
+    intro n t h
+    rw [evalNode_succ_eq] at h ⊢
+    exact evalStep_mono_local (fun e _ _ t ht => ih e.src t ht) h
+
+theorem evalNode_mono (l : CNet) {f f' : Nat} (hff : f ≤ f') {n : Nat} {t : Term}
+    (h : evalNode l f n = some t) : evalNode l f' n = some t := by
+  induction hff with
+  | refl => exact h
+  | step _ ih => exact evalNode_succ_mono l _ n t ih
+
+theorem CNet.find_some {c : CNet} {n : Nat} {x : CNode} (h : c.find n = some x) :
+    x ∈ c.nodes ∧ x.name = n := by
+  unfold CNet.find at h
+  exact ⟨List.mem_of_find?_eq_some h, by simpa using List.find?_some h⟩
+
+theorem evalNode_some_mem {l : CNet} {f n : Nat} {t : Term} (h : evalNode l f n = some t) :
+    n ∈ l.nodes.map (·.name) := by
+  cases f with
+  | zero => simp [evalNode_zero] at h
+  | succ f =>
+    rw [evalNode_succ_eq, evalStep_eq_some] at h
+    obtain ⟨x, hx, _⟩ := h
+    have := CNet.find_some hx
+    exact List.mem_map.mpr ⟨x, this.1, this.2⟩
+
+/-- with a rank function along the edges, the compressed rank of a node (+1) is enough fuel -/
+theorem evalNode_crank (l : CNet) (r : Nat → Nat) (hr : ∀ e ∈ l.edges, r e.src < r e.dst) :
+    ∀ (F n : Nat) (t : Term), evalNode l F n = some t →
+      evalNode l (crank (l.nodes.map (·.name)) r n + 1) n = some t := by
+  intro F
+  induction F with
+  | zero => intro n t h; simp [evalNode_zero] at h
+  | succ F ih =>
+    intro n t h
+    rw [evalNode_succ_eq] at h ⊢
+    refine evalStep_mono_local ?_ h
+    intro e he hd te hte
+    have h1 := ih e.src te hte
+    have hmem := evalNode_some_mem hte
+    have hlt : r e.src < r n := hd ▸ hr e he
+    exact evalNode_mono l (crank_lt_of_lt _ r hmem hlt) h1
+
+/-- for an acyclic net, any fuel above the number of nodes is enough -/
+theorem evalNode_of_exists_fuel (l : CNet)
+    (hacy : ∃ r : Nat → Nat, ∀ e ∈ l.edges, r e.src < r e.dst)
+    {fuel : Nat} (hf : l.nodes.length < fuel) {n : Nat} {t : Term}
+    (h : ∃ F, evalNode l F n = some t) : evalNode l fuel n = some t := by
+  obtain ⟨r, hr⟩ := hacy
+  obtain ⟨F, hF⟩ := h
+  have h1 := evalNode_crank l r hr F n t hF
+  have hmem := evalNode_some_mem hF
+  have h2 := crank_lt_length _ r hmem
+  simp only [List.length_map] at h2
+  exact evalNode_mono l (by omega) h1
+
+/-! ### the invariant of the execution loop -/
+
+/-- the output currently stored for node `m` -/
+def outOf (g : CNet) (m : Nat) : Option Term := (g.find m).bind (·.output)
+
+def Sem (l : CNet) (n : Nat) (t : Term) : Prop := ∃ F, evalNode l F n = some t
+
+/-- `g` is an intermediate net of the execution of `l` -/
+def Inv (l g : CNet) : Prop :=
+  g.edges = l.edges ∧
+  ∀ n y, g.find n = some y → ∃ x, l.find n = some x ∧
+    (y = x ∨ (y.op = none ∧ ∃ t, y.output = some t ∧ Sem l n t))
+
+theorem Inv.refl (l : CNet) : Inv l l := ⟨rfl, fun _ y hy => ⟨y, hy, Or.inl rfl⟩⟩
+
+theorem Inv.out {l g : CNet} (h : Inv l g) {m : Nat} {t : Term} (ho : outOf g m = some t) :
+    Sem l m t := by
+  unfold outOf at ho
+  rw [Option.bind_eq_some_iff] at ho
+  obtain ⟨y, hy, hyo⟩ := ho
+  obtain ⟨x, hx, hcase⟩ := h.2 m y hy
+  rcases hcase with rfl | ⟨_, t', ht', hs⟩
+  · refine ⟨1, ?_⟩
+    rw [evalNode_succ_eq, evalStep_eq_some]
+    exact ⟨_, hx, Or.inl hyo⟩
+  · rw [ht'] at hyo
+    cases hyo
+    exact hs
+
+/-- a common fuel for finitely many parents -/
+theorem common_fuel (l : CNet) (ev : Nat → Option Term) (es : List Edge)
+    (h : ∀ e ∈ es, ∀ t, ev e.src = some t → Sem l e.src t) :
+    ∃ F, ∀ e ∈ es, ∀ t, ev e.src = some t → evalNode l F e.src = some t := by
+  induction es with
+  | nil => exact ⟨0, fun _ he => by cases he⟩
+  | cons e es ih =>
+    obtain ⟨F1, hF1⟩ := ih (fun e' he' => h e' (List.mem_cons_of_mem _ he'))
+    cases hev : ev e.src with
+    | none =>
+      refine ⟨F1, fun e' he' t ht => ?_⟩
+      rcases List.mem_cons.mp he' with rfl | he'
+      · rw [hev] at ht; cases ht
+      · exact hF1 e' he' t ht
+    | some t0 =>
+      obtain ⟨F0, hF0⟩ := h e List.mem_cons_self t0 hev
+      refine ⟨max F0 F1, fun e' he' t ht => ?_⟩
+      rcases List.mem_cons.mp he' with rfl | he'
+      · rw [hev] at ht
+        cases ht
+        exact evalNode_mono l (Nat.le_max_left _ _) hF0
+      · exact evalNode_mono l (Nat.le_max_right _ _) (hF1 e' he' t ht)
+
+/-- the node update of `execNode` -/
+def upd (n : Nat) (t : Term) (y : CNode) : CNode :=
+  if y.name == n then { y with output := some t, op := none } else y
+
+/-- the net update of `execNode` -/
+def setOut (g : CNet) (n : Nat) (t : Term) : CNet := { g with nodes := g.nodes.map (upd n t) }
+
+theorem execNode_eq_some {g g' : CNet} {n : Nat} (h : execNode g n = some g') :
+    ∃ x, g.find n = some x ∧
+      ((x.op = none ∧ g' = g) ∨
+        (∃ op, x.op = some op ∧ (insOf g.edges (outOf g) n).all (·.isSome) = true ∧
+          g' = setOut g n (applyOp op ((insOf g.edges (outOf g) n).filterMap id)))) := by
+  unfold execNode at h
+  cases hx : g.find n with
+  | none => simp [hx] at h
+  | some x =>
+    simp only [hx] at h
+    refine ⟨x, rfl, ?_⟩
+    cases hop : x.op with
+    | none =>
+      simp only [hop] at h
+      split at h
+      · exact Or.inl ⟨rfl, (Option.some.inj h).symm⟩
+      · cases h
+    | some op =>
+      simp only [hop] at h
+      split at h
+      · rename_i hall
+        exact Or.inr ⟨op, rfl, hall, (Option.some.inj h).symm⟩
+      · cases h
+
+theorem find_upd (g : CNet) (n : Nat) (t : Term) (m : Nat) :
+    (setOut g n t).find m = (g.find m).map (upd n t) := by
+  unfold CNet.find setOut
+  simp only
+  rw [List.find?_map]
+  have : ((fun x : CNode => x.name == m) ∘ upd n t) = (fun x => x.name == m) := by
+    funext y
+    simp only [Function.comp, upd]
+    split <;> rfl
+  rw [this]
+
+theorem Inv.step {l g g' : CNet} {n : Nat}
+    (hop : ∀ x ∈ l.nodes, x.output.isSome = true → x.op = none)
+    (hI : Inv l g) (h : execNode g n = some g') : Inv l g' := by
+  obtain ⟨x, hx, hcase⟩ := execNode_eq_some h
+  rcases hcase with ⟨_, rfl⟩ | ⟨op, hxop, hall, rfl⟩
+  · exact hI
+  · obtain ⟨x0, hx0, hc⟩ := hI.2 n x hx
+    have hxx : x = x0 := by
+      rcases hc with h | ⟨h, _⟩
+      · exact h
+      · rw [h] at hxop; cases hxop
+    subst hxx
+    have hxout : x.output = none := by
+      cases ho : x.output with
+      | none => rfl
+      | some t0 =>
+        have := hop x (CNet.find_some hx0).1 (by simp [ho])
+        rw [this] at hxop; cases hxop
+    obtain ⟨F, hF⟩ := common_fuel l (outOf g) l.edges (fun e _ t ht => hI.out ht)
+    have hins : insOf l.edges (evalNode l F) n = insOf g.edges (outOf g) n := by
+      rw [hI.1]
+      apply insOf_congr
+      intro e he hd
+      have := (insOf_all.mp hall) e (hI.1 ▸ he) hd
+      obtain ⟨te, hte⟩ := Option.isSome_iff_exists.mp this
+      rw [hte, hF e he te hte]
+    have hsem : Sem l n (applyOp op ((insOf g.edges (outOf g) n).filterMap id)) := by
+      refine ⟨F + 1, ?_⟩
+      rw [evalNode_succ_eq, evalStep_eq_some]
+      exact ⟨x, hx0, Or.inr ⟨hxout, op, hxop, hins ▸ hall, by rw [hins]⟩⟩
+    refine ⟨hI.1, ?_⟩
+    intro m y hy
+    rw [find_upd, Option.map_eq_some_iff] at hy
+    obtain ⟨y0, hy0, rfl⟩ := hy
+    have hname := (CNet.find_some hy0).2
+    by_cases hmn : m = n
+    · subst hmn
+      rw [hx] at hy0
+      cases hy0
+      refine ⟨x, hx0, Or.inr ?_⟩
+      simp only [upd, hname, beq_self_eq_true, if_true]
+      exact ⟨trivial, _, rfl, hsem⟩
+    · have : upd n (applyOp op ((insOf g.edges (outOf g) n).filterMap id)) y0 = y0 := by
+        simp only [upd, hname]
+        rw [if_neg]
+        simpa using hmn
+      rw [this]
+      exact hI.2 m y0 hy0
+
+theorem foldl_exec_none (order : List Nat) :
+    order.foldl (fun acc n => acc.bind (fun g => execNode g n)) none = none := by
+  induction order with
+  | nil => rfl
+  | cons a as ih => simpa using ih
+
+theorem Inv.fold {l : CNet} (hop : ∀ x ∈ l.nodes, x.output.isSome = true → x.op = none) :
+    ∀ (order : List Nat) (g g' : CNet), Inv l g →
+      order.foldl (fun acc n => acc.bind (fun g => execNode g n)) (some g) = some g' →
+      Inv l g' := by
+  intro order
+  induction order with
+  | nil =>
+    intro g g' hI h
+    simp only [List.foldl_nil, Option.some.injEq] at h
+    subst h
+    exact hI
+  | cons a as ih =>
+    intro g g' hI h
+    simp only [List.foldl_cons, Option.bind_some] at h
+    cases he : execNode g a with
+    | none => rw [he, foldl_exec_none] at h; cases h
+    | some g1 =>
+      rw [he] at h
+      exact ih g1 g' (hI.step hop he) h
+
+theorem mapM_option_mem {α β : Type} (f : α → Option β) :
+    ∀ (l : List α) (res : List β), l.mapM f = some res → ∀ p ∈ res, ∃ a ∈ l, f a = some p := by
+  intro l
+  induction l with
+  | nil =>
+    intro res h p hp
+    simp at h
+    subst h
+    cases hp
+  | cons a as ih =>
+    intro res h p hp
+    rw [List.mapM_cons] at h
+    cases hfa : f a with
+    | none => simp [hfa] at h
+    | some b =>
+      cases has : as.mapM f with
+      | none => simp [hfa, has] at h
+      | some bs =>
+        simp [hfa, has] at h
+        subst h
+        rcases List.mem_cons.mp hp with rfl | hp'
+        · exact ⟨a, List.mem_cons_self, hfa⟩
+        · obtain ⟨a', ha', hfa'⟩ := ih bs has p hp'
+          exact ⟨a', List.mem_cons_of_mem _ ha', hfa'⟩
+
+/-! ### the theorem -/
+
+theorem execute_eq_eval_corrected (l : CNet) (hn : (l.nodes.map (·.name)).Nodup)
+    (hop : ∀ x ∈ l.nodes, x.output.isSome = true → x.op = none)
+    (order : List Nat)
+    (res : List (Nat × Term)) (h : execute l order = some res) (fuel : Nat) (hf : l.nodes.length < fuel)
+    (hacy : ∃ r : Nat → Nat, ∀ e ∈ l.edges, r e.src < r e.dst) :
+    ∀ p ∈ res, evalNode l fuel p.1 = some p.2 := by
+  have _ := hn
+  intro p hp
+  unfold execute at h
+  cases hfold : order.foldl (fun acc n => acc.bind (fun g => execNode g n)) (some l) with
+  | none => rw [hfold] at h; cases h
+  | some g =>
+    rw [hfold] at h
+    simp only at h
+    have hI : Inv l g := Inv.fold hop order l g (Inv.refl l) hfold
+    obtain ⟨o, _, ho⟩ := mapM_option_mem _ _ _ h p hp
+    rw [Option.map_eq_some_iff] at ho
+    obtain ⟨t, ht, rfl⟩ := ho
+    exact evalNode_of_exists_fuel l hacy hf (hI.out ht)
+
+/-! ### the loaders, node by node -/
+
+theorem upd_name (n : Nat) (t : Term) (y : CNode) : (upd n t y).name = y.name := by
+  unfold upd; split <;> rfl
+
+theorem upd_ne {n : Nat} {t : Term} {y : CNode} (h : y.name ≠ n) : upd n t y = y := by
+  unfold upd; simp [h]
+
+theorem upd_eq {n : Nat} {t : Term} {y : CNode} (h : y.name = n) : upd n t y = ⟨y.name, none, some t⟩ := by
+  unfold upd; simp [h]
+
+theorem foldl_map_comm {α β : Type _} (g : β → α → α) (ps : List β) (l : List α) :
+    ps.foldl (fun acc p => acc.map (g p)) l = l.map (fun x => ps.foldl (fun y p => g p y) x) := by
+  induction ps generalizing l with
+  | nil => simp
+  | cons p ps ih => simp only [List.foldl_cons]; rw [ih, List.map_map]; rfl
+
+theorem foldl_upd_name {β : Type _} (k : β → Nat) (v : β → Term) (ps : List β) (x : CNode) :
+    (ps.foldl (fun y p => upd (k p) (v p) y) x).name = x.name := by
+  induction ps generalizing x with
+  | nil => rfl
+  | cons p ps ih => simp only [List.foldl_cons]; rw [ih, upd_name]
+
+theorem foldl_upd_stable {β : Type _} (k : β → Nat) (v : β → Term) (ps : List β) (x : CNode)
+    (h : ∀ q ∈ ps, k q = x.name → x.op = none ∧ x.output = some (v q)) :
+    ps.foldl (fun y p => upd (k p) (v p) y) x = x := by
+  induction ps with
+  | nil => rfl
+  | cons p ps ih =>
+    simp only [List.foldl_cons]
+    have hx : upd (k p) (v p) x = x := by
+      by_cases hk : x.name = k p
+      · obtain ⟨h1, h2⟩ := h p List.mem_cons_self hk.symm
+        rw [upd_eq hk]
+        cases x; simp_all
+      · exact upd_ne hk
+    rw [hx]
+    exact ih (fun q hq => h q (List.mem_cons_of_mem _ hq))
+
+theorem foldl_upd_mem {β : Type _} (k : β → Nat) (v : β → Term) (ps : List β) (x : CNode) (p : β)
+    (hp : p ∈ ps) (hk : k p = x.name) (hv : ∀ q ∈ ps, k q = x.name → v q = v p) :
+    ps.foldl (fun y p => upd (k p) (v p) y) x = ⟨x.name, none, some (v p)⟩ := by
+  induction ps generalizing x with
+  | nil => simp at hp
+  | cons q ps ih =>
+    simp only [List.foldl_cons]
+    by_cases hq : x.name = k q
+    · rw [upd_eq hq, hv q List.mem_cons_self hq.symm]
+      apply foldl_upd_stable
+      intro q' hq' hk'
+      exact ⟨rfl, by rw [hv q' (List.mem_cons_of_mem _ hq') hk']⟩
+    · rw [upd_ne hq]
+      rcases List.mem_cons.1 hp with rfl | hp'
+      · exact absurd hk.symm hq
+      · exact ih x hp' hk (fun q' hq' => hv q' (List.mem_cons_of_mem _ hq'))
+
+/-- what the loaders do to a single node -/
+def loadNode (env : Env) (s : Source) (supplied : List (Nat × Nat)) (x : CNode) : CNode :=
+  supplied.foldl (fun y p => upd p.1 (.const p.2) y)
+    (upd env.rs .tRandomState (upd env.mt .tMeta (upd env.bs .tBatchSize
+      (s.observed.foldl (fun y p => upd (env.twin p.1) (.const p.2) y) x))))
+
+theorem load_nodes (env : Env) (s : Source) (supplied : List (Nat × Nat)) (ms : List Nat) (c : CNet) :
+    (load env s supplied ms c).nodes = c.nodes.map (loadNode env s supplied) := by
+  unfold load
+  dsimp only
+  have h1 := foldl_map_comm (fun (p : Nat × Nat) y => upd (env.twin p.1) (.const p.2) y) s.observed c.nodes
+  have h3 := fun l => foldl_map_comm (fun (p : Nat × Nat) y => upd p.1 (.const p.2) y) supplied l
+  simp only [upd] at h1 h3
+  rw [h1, List.map_map, List.map_map, List.map_map, h3, List.map_map]
+  rfl
+
+theorem load_edges (env : Env) (s : Source) (supplied : List (Nat × Nat)) (ms : List Nat) (c : CNet) :
+    (load env s supplied ms c).edges = c.edges := rfl
+
+theorem loadNode_name (env : Env) (s : Source) (supplied : List (Nat × Nat)) (x : CNode) :
+    (loadNode env s supplied x).name = x.name := by
+  unfold loadNode
+  rw [foldl_upd_name (fun p : Nat × Nat => p.1) (fun p => .const p.2), upd_name, upd_name, upd_name,
+    foldl_upd_name (fun p : Nat × Nat => env.twin p.1) (fun p => .const p.2)]
+
+theorem load_find (env : Env) (s : Source) (supplied : List (Nat × Nat)) (ms : List Nat) (c : CNet) (m : Nat) :
+    (load env s supplied ms c).find m = (c.find m).map (loadNode env s supplied) := by
+  unfold CNet.find
+  rw [load_nodes, List.find?_map]
+  have : ((fun x : CNode => x.name == m) ∘ loadNode env s supplied) = (fun x => x.name == m) := by
+    funext y
+    simp only [Function.comp, loadNode_name]
+  rw [this]
+
+theorem find?_eq_some_of_unique {α : Type _} (p : α → Bool) (l : List α) (x : α) (hx : x ∈ l)
+    (hp : p x = true) (hu : ∀ y ∈ l, p y = true → y = x) : l.find? p = some x := by
+  induction l with
+  | nil => simp at hx
+  | cons a l ih =>
+    rw [List.find?_cons]
+    by_cases ha : p a = true
+    · rw [ha, hu a List.mem_cons_self ha]
+    · have hane : a ≠ x := fun h => ha (h ▸ hp)
+      simp only [ha]
+      rcases List.mem_cons.1 hx with rfl | hx'
+      · exact absurd rfl hane
+      · exact ih hx' (fun y hy => hu y (List.mem_cons_of_mem _ hy))
+
+theorem find?_congr' {α : Type _} {p q : α → Bool} {l : List α} (h : ∀ x ∈ l, p x = q x) :
+    l.find? p = l.find? q := by
+  induction l with
+  | nil => rfl
+  | cons a l ih =>
+    rw [List.find?_cons, List.find?_cons, h a List.mem_cons_self,
+      ih (fun x hx => h x (List.mem_cons_of_mem _ hx))]
+
+theorem compiledOf_name (x : SNode) : (compiledOf x).name = x.name := by
+  unfold compiledOf; split <;> rfl
+
+theorem Source.find_eq {env : Env} {s : Source} (hwf : SourceWF env s) {x : SNode} (hx : x ∈ s.nodes) :
+    s.find x.name = some x :=
+  find?_eq_some_of_unique _ _ x hx (by simp) (fun y hy h => hwf.node_ext hy hx (by simpa using h))
+
+/-- the twin node the ObservedCompiler creates -/
+def twinNode (env : Env) (x : SNode) : CNode :=
+  if x.observable then { compiledOf x with name := env.twin x.name }
+  else ⟨env.twin x.name, some .argsToTuple, none⟩
+
+theorem twinNode_name (env : Env) (x : SNode) : (twinNode env x).name = env.twin x.name := by
+  unfold twinNode; split <;> rfl
+
+theorem compileAll_nodes (env : Env) (s : Source) : (compileAll env s).1 =
+    s.nodes.map compiledOf ++ (s.nodes.filter hasTwin).map (twinNode env) ++
+    ((if s.nodes.any (·.usesBatchSize) then [⟨env.bs, none, none⟩] else []) ++
+     (if s.nodes.any (·.usesMeta) then [⟨env.mt, none, none⟩] else []) ++
+     (if s.nodes.any (·.stochastic) then [(⟨env.rs, none, none⟩ : CNode)] else [])) := rfl
+
+theorem compileAll_find_user {env : Env} {s : Source} (hwf : SourceWF env s) {x : SNode} (hx : x ∈ s.nodes) :
+    (compileAll env s).1.find? (fun y => y.name == x.name) = some (compiledOf x) := by
+  rw [compileAll_nodes, List.find?_append, List.find?_append, List.find?_map]
+  have : ((fun y : CNode => y.name == x.name) ∘ compiledOf) = (fun y => y.name == x.name) := by
+    funext y; simp only [Function.comp, compiledOf_name]
+  rw [this]
+  have := Source.find_eq hwf hx
+  unfold Source.find at this
+  rw [this]; rfl
+
+theorem compileAll_find_twin {env : Env} {s : Source} (hwf : SourceWF env s) {x : SNode} (hx : x ∈ s.nodes)
+    (ht : hasTwin x = true) :
+    (compileAll env s).1.find? (fun y => y.name == env.twin x.name) = some (twinNode env x) := by
+  rw [compileAll_nodes, List.find?_append, List.find?_append, List.find?_map, List.find?_map]
+  have h1 : s.nodes.find? ((fun y : CNode => y.name == env.twin x.name) ∘ compiledOf) = none := by
+    rw [List.find?_eq_none]
+    intro y hy
+    simp only [Function.comp, compiledOf_name, beq_iff_eq]
+    intro h
+    exact hwf.twin_fresh x hx ⟨y, hy, h⟩
+  have h2 : (s.nodes.filter hasTwin).find? ((fun y : CNode => y.name == env.twin x.name) ∘ twinNode env) = some x := by
+    apply find?_eq_some_of_unique
+    · exact List.mem_filter.2 ⟨hx, ht⟩
+    · simp [twinNode_name]
+    · intro y hy h
+      simp only [Function.comp, twinNode_name, beq_iff_eq] at h
+      have hy' := (List.mem_filter.1 hy).1
+      exact hwf.node_ext hy' hx (hwf.twin_inj y hy' x hx h)
+  rw [h1, h2]; rfl
+
+theorem compileAll_find_instr {env : Env} {s : Source} (hwf : SourceWF env s) {n : Nat}
+    (hn : n = env.bs ∨ n = env.mt ∨ n = env.rs) (hm : n ∈ (compileAll env s).1.map (·.name)) :
+    (compileAll env s).1.find? (fun y => y.name == n) = some ⟨n, none, none⟩ := by
+  have hI := hwf.instr_fresh n hn
+  obtain ⟨d1, d2, d3⟩ := hwf.instr_distinct
+  rw [compileAll_nodes] at hm ⊢
+  rw [List.find?_append, List.find?_append, List.find?_map, List.find?_map]
+  have h1 : s.nodes.find? ((fun y : CNode => y.name == n) ∘ compiledOf) = none := by
+    rw [List.find?_eq_none]
+    intro y hy
+    simp only [Function.comp, compiledOf_name, beq_iff_eq]
+    intro h
+    exact hI.1 ⟨y, hy, h⟩
+  have h2 : (s.nodes.filter hasTwin).find? ((fun y : CNode => y.name == n) ∘ twinNode env) = none := by
+    rw [List.find?_eq_none]
+    intro y hy
+    simp only [Function.comp, twinNode_name, beq_iff_eq]
+    exact hI.2 y (List.mem_filter.1 hy).1
+  rw [h1, h2]
+  simp only [List.map_append, List.mem_append, List.mem_map] at hm
+  rcases hm with (⟨y, ⟨z, hz, rfl⟩, hy⟩ | ⟨y, ⟨z, hz, rfl⟩, hy⟩) | hm
+  · rw [compiledOf_name] at hy; exact absurd ⟨z, hz, hy⟩ hI.1
+  · rw [twinNode_name] at hy; exact absurd hy (hI.2 z (List.mem_filter.1 hz).1)
+  · rcases hn with rfl | rfl | rfl
+    · by_cases hb : s.nodes.any (·.usesBatchSize) = true
+      · simp [hb]
+      · exfalso
+        simp only [hb] at hm
+        rcases hm with (⟨y, hy, hyn⟩ | ⟨y, hy, hyn⟩) | ⟨y, hy, hyn⟩
+        · simp at hy
+        · split at hy
+          · simp at hy; subst hy; exact d1 hyn.symm
+          · simp at hy
+        · split at hy
+          · simp at hy; subst hy; exact d2 hyn.symm
+          · simp at hy
+    · by_cases hb : s.nodes.any (·.usesMeta) = true
+      · have : (env.bs == env.mt) = false := by simpa using d1
+        simp [hb, List.find?_append]
+        split <;> simp [this]
+      · exfalso
+        simp only [hb] at hm
+        rcases hm with (⟨y, hy, hyn⟩ | ⟨y, hy, hyn⟩) | ⟨y, hy, hyn⟩
+        · split at hy
+          · simp at hy; subst hy; exact d1 hyn
+          · simp at hy
+        · simp at hy
+        · split at hy
+          · simp at hy; subst hy; exact d3 hyn.symm
+          · simp at hy
+    · by_cases hb : s.nodes.any (·.stochastic) = true
+      · have h1 : (env.bs == env.rs) = false := by simpa using d2
+        have h2 : (env.mt == env.rs) = false := by simpa using d3
+        simp [hb, List.find?_append]
+        split <;> split <;> simp [h1, h2]
+      · exfalso
+        simp only [hb] at hm
+        rcases hm with (⟨y, hy, hyn⟩ | ⟨y, hy, hyn⟩) | ⟨y, hy, hyn⟩
+        · split at hy
+          · simp at hy; subst hy; exact d2 hyn
+          · simp at hy
+        · split at hy
+          · simp at hy; subst hy; exact d3 hyn
+          · simp at hy
+        · simp at hy
+
+/-! ### in-edges of the compiled net -/
+
+theorem filter_flatMap_none {α β : Type _} (l : List α) (P : α → Bool) (g : α → List β) (q : β → Bool)
+    (h : ∀ y ∈ l, ∀ b ∈ g y, q b = false) : ((l.filter P).flatMap g).filter q = [] := by
+  rw [List.filter_eq_nil_iff]
+  intro b hb
+  obtain ⟨y, hy, hby⟩ := List.mem_flatMap.1 hb
+  rw [h y (List.mem_filter.1 hy).1 b hby]; simp
+
+theorem filter_flatMap_single {α β : Type _} (l : List α) (x : α) (hnd : l.Nodup) (hx : x ∈ l)
+    (P : α → Bool) (g : α → List β) (q : β → Bool)
+    (h1 : ∀ y ∈ l, y ≠ x → ∀ b ∈ g y, q b = false) (h2 : ∀ b ∈ g x, q b = true) :
+    ((l.filter P).flatMap g).filter q = if P x then g x else [] := by
+  induction l with
+  | nil => simp at hx
+  | cons a l ih =>
+    obtain ⟨hal, hnd'⟩ := List.nodup_cons.1 hnd
+    by_cases hax : a = x
+    · subst hax
+      have hrest : ((l.filter P).flatMap g).filter q = [] := by
+        apply filter_flatMap_none
+        intro y hy
+        exact h1 y (List.mem_cons_of_mem _ hy) (fun h => hal (h ▸ hy))
+      have hgx : (g a).filter q = g a := List.filter_eq_self.2 h2
+      by_cases hp : P a = true
+      · simp only [List.filter_cons, hp, if_true, List.flatMap_cons, List.filter_append, hrest, hgx,
+          List.append_nil]
+      · have hp' : P a = false := by simpa using hp
+        simp only [List.filter_cons, hp', Bool.false_eq_true, if_false]; exact hrest
+    · have hx' : x ∈ l := by
+        rcases List.mem_cons.1 hx with h | h
+        · exact absurd h.symm hax
+        · exact h
+      have ih' := ih hnd' hx' (fun y hy => h1 y (List.mem_cons_of_mem _ hy))
+      have hga : (g a).filter q = [] := by
+        rw [List.filter_eq_nil_iff]
+        intro b hb
+        rw [h1 a List.mem_cons_self hax b hb]; simp
+      by_cases hp : P a = true
+      · simp only [List.filter_cons, hp, if_true, List.flatMap_cons, List.filter_append, hga,
+          List.nil_append, ih']
+      · have hp' : P a = false := by simpa using hp
+        simp only [List.filter_cons, hp', Bool.false_eq_true, if_false]; exact ih'
+
+theorem filter_map_single {α β : Type _} (l : List α) (x : α) (hnd : l.Nodup) (hx : x ∈ l)
+    (P : α → Bool) (f : α → β) (q : β → Bool)
+    (h1 : ∀ y ∈ l, y ≠ x → q (f y) = false) (h2 : q (f x) = true) :
+    ((l.filter P).map f).filter q = if P x then [f x] else [] := by
+  rw [List.map_eq_flatMap]
+  apply filter_flatMap_single l x hnd hx P (fun y => [f y]) q
+  · intro y hy hne b hb
+    simp only [List.mem_singleton] at hb; subst hb; exact h1 y hy hne
+  · intro b hb
+    simp only [List.mem_singleton] at hb; subst hb; exact h2
+
+theorem filter_map_none {α β : Type _} (l : List α) (P : α → Bool) (f : α → β) (q : β → Bool)
+    (h : ∀ y ∈ l, q (f y) = false) : ((l.filter P).map f).filter q = [] := by
+  rw [List.filter_eq_nil_iff]
+  intro b hb
+  obtain ⟨y, hy, rfl⟩ := List.mem_map.1 hb
+  rw [h y (List.mem_filter.1 hy).1]; simp
+
+theorem compileAll_edges (env : Env) (s : Source) : (compileAll env s).2 =
+    s.edges ++
+    (s.nodes.filter (fun x => !x.observable && x.usesObserved)).map
+      (fun x => (⟨env.twin x.name, x.name, .named env.kwObserved⟩ : Edge)) ++
+    (s.nodes.filter (fun x => hasTwin x && !x.stochastic)).flatMap (fun x =>
+      (s.inEdges x.name).map (fun e =>
+        (⟨if s.isObservable e.src then env.twin e.src else e.src, env.twin x.name, e.param⟩ : Edge))) ++
+    (s.nodes.filter (·.usesBatchSize)).map (fun x => (⟨env.bs, x.name, .named env.kwBatchSize⟩ : Edge)) ++
+    (s.nodes.filter (·.usesMeta)).map (fun x => (⟨env.mt, x.name, .named env.kwMeta⟩ : Edge)) ++
+    (s.nodes.filter (·.stochastic)).map (fun x => (⟨env.rs, x.name, .named env.kwRandomState⟩ : Edge)) := rfl
+
+theorem SourceWF.nodes_nodup {env : Env} {s : Source} (hwf : SourceWF env s) : s.nodes.Nodup :=
+  List.Nodup.of_map _ hwf.names_nodup
+
+theorem compileAll_inEdges_user {env : Env} {s : Source} (hwf : SourceWF env s) {x : SNode} (hx : x ∈ s.nodes) :
+    (compileAll env s).2.filter (fun e => e.dst == x.name) =
+      s.inEdges x.name ++
+      (if (!x.observable && x.usesObserved) then [(⟨env.twin x.name, x.name, .named env.kwObserved⟩ : Edge)] else []) ++
+      (if x.usesBatchSize then [(⟨env.bs, x.name, .named env.kwBatchSize⟩ : Edge)] else []) ++
+      (if x.usesMeta then [(⟨env.mt, x.name, .named env.kwMeta⟩ : Edge)] else []) ++
+      (if x.stochastic then [(⟨env.rs, x.name, .named env.kwRandomState⟩ : Edge)] else []) := by
+  have hnd := hwf.nodes_nodup
+  have hne : ∀ y ∈ s.nodes, y ≠ x → (y.name == x.name) = false := by
+    intro y hy hyx
+    simp only [beq_eq_false_iff_ne, ne_eq]
+    exact fun h => hyx (hwf.node_ext hy hx h)
+  rw [compileAll_edges]
+  simp only [List.filter_append]
+  rw [filter_map_single s.nodes x hnd hx _ _ _ (fun y hy hyx => hne y hy hyx) (by simp),
+    filter_map_single s.nodes x hnd hx _ _ _ (fun y hy hyx => hne y hy hyx) (by simp),
+    filter_map_single s.nodes x hnd hx _ _ _ (fun y hy hyx => hne y hy hyx) (by simp),
+    filter_map_single s.nodes x hnd hx _ _ _ (fun y hy hyx => hne y hy hyx) (by simp),
+    filter_flatMap_none]
+  · simp only [List.append_nil]; rfl
+  · intro y hy b hb
+    obtain ⟨e', _, rfl⟩ := List.mem_map.1 hb
+    simp only [beq_eq_false_iff_ne, ne_eq]
+    exact fun h => hwf.twin_fresh y hy ⟨x, hx, h.symm⟩
+
+theorem compileAll_inEdges_twin {env : Env} {s : Source} (hwf : SourceWF env s) {x : SNode} (hx : x ∈ s.nodes) :
+    (compileAll env s).2.filter (fun e => e.dst == env.twin x.name) =
+      if (hasTwin x && !x.stochastic) then
+        (s.inEdges x.name).map (fun e =>
+          (⟨if s.isObservable e.src then env.twin e.src else e.src, env.twin x.name, e.param⟩ : Edge))
+      else [] := by
+  have hnd := hwf.nodes_nodup
+  have hne : ∀ y ∈ s.nodes, (y.name == env.twin x.name) = false := by
+    intro y hy
+    simp only [beq_eq_false_iff_ne, ne_eq]
+    exact fun h => hwf.twin_fresh x hx ⟨y, hy, h⟩
+  rw [compileAll_edges]
+  simp only [List.filter_append]
+  rw [filter_map_none s.nodes _ _ _ (fun y hy => hne y hy),
+    filter_map_none s.nodes _ _ _ (fun y hy => hne y hy),
+    filter_map_none s.nodes _ _ _ (fun y hy => hne y hy),
+    filter_map_none s.nodes _ _ _ (fun y hy => hne y hy),
+    filter_flatMap_single s.nodes x hnd hx]
+  · have : s.edges.filter (fun e => e.dst == env.twin x.name) = [] := by
+      rw [List.filter_eq_nil_iff]
+      intro e he
+      obtain ⟨w, hw, hwn⟩ := (hwf.edges_in e he).2
+      have := hne w hw
+      rw [hwn] at this
+      simp [this]
+    rw [this]; simp
+  · intro y hy hyx b hb
+    obtain ⟨e', _, rfl⟩ := List.mem_map.1 hb
+    simp only [beq_eq_false_iff_ne, ne_eq]
+    exact fun h => hyx (hwf.node_ext hy hx (hwf.twin_inj y hy x hx h))
+  · intro b hb
+    obtain ⟨e', _, rfl⟩ := List.mem_map.1 hb
+    simp
+
+/-- the compiled net, explicitly -/
+def cnet (env : Env) (s : Source) (outputs : List Nat) : CNet :=
+  ⟨(compileAll env s).1.filter (fun x => keepF env s outputs x.name),
+   (compileAll env s).2.filter (fun e => keepF env s outputs e.src && keepF env s outputs e.dst),
+   outputs⟩
+
+theorem cnet_find (env : Env) (s : Source) (outputs : List Nat) {m : Nat} (hk : keepF env s outputs m = true) :
+    (cnet env s outputs).find m = (compileAll env s).1.find? (fun y => y.name == m) := by
+  unfold CNet.find cnet
+  simp only
+  rw [List.find?_filter]
+  apply find?_congr'
+  intro y _
+  by_cases h : y.name = m
+  · simp [h, hk]
+  · simp [h]
+
+theorem cnet_insOf {env : Env} {s : Source} (hwf : SourceWF env s) (outputs : List Nat) (ev : Nat → Option Term)
+    {m : Nat} (hk : keepF env s outputs m = true) :
+    insOf (cnet env s outputs).edges ev m = insOf (compileAll env s).2 ev m := by
+  unfold insOf cnet
+  simp only
+  rw [List.filter_filter]
+  congr 1
+  apply List.filter_congr
+  intro e he
+  by_cases h : e.dst = m
+  · have h2 : keepF env s outputs e.dst = true := by rw [h]; exact hk
+    have h1 := keepF_closed hwf outputs he h2
+    simp [h, h1, hk]
+  · simp [h]
+
+/-! ### the loaded net, node by node -/
+
+/-- the hypotheses of the corrected meaning theorems -/
+structure LoadHyp (env : Env) (s : Source) (supplied : List (Nat × Nat)) : Prop where
+  wf : SourceWF env s
+  sup : ∀ p ∈ supplied, IsUser s p.1 ∨ IsTwin env s p.1
+  sup_nodup : (supplied.map (·.1)).Nodup
+  obs_user : ∀ p ∈ s.observed, IsUser s p.1
+
+theorem supFold_some (supplied : List (Nat × Nat)) (hnd : (supplied.map (·.1)).Nodup) (z : CNode) (p : Nat × Nat)
+    (h : supplied.find? (fun q => q.1 == z.name) = some p) :
+    supplied.foldl (fun y p => upd p.1 (.const p.2) y) z = ⟨z.name, none, some (.const p.2)⟩ := by
+  have hp := List.mem_of_find?_eq_some h
+  have hk : p.1 = z.name := by simpa using List.find?_some h
+  apply foldl_upd_mem (fun q : Nat × Nat => q.1) (fun q => Term.const q.2) supplied z p hp hk
+  intro q hq hqk
+  rw [List.inj_on_of_nodup_map hnd hq hp (hqk.trans hk.symm)]
+
+theorem supFold_none (supplied : List (Nat × Nat)) (z : CNode)
+    (h : supplied.find? (fun q => q.1 == z.name) = none) :
+    supplied.foldl (fun y p => upd p.1 (.const p.2) y) z = z := by
+  apply foldl_upd_stable (fun q : Nat × Nat => q.1) (fun q => Term.const q.2)
+  intro q hq hqk
+  have := List.find?_eq_none.1 h q hq
+  simp [hqk] at this
+
+theorem LoadHyp.user_ne_instr {env : Env} {s : Source} {supplied : List (Nat × Nat)} (H : LoadHyp env s supplied)
+    {n : Nat} (hn : IsUser s n) : n ≠ env.bs ∧ n ≠ env.mt ∧ n ≠ env.rs :=
+  ⟨fun h => (H.wf.instr_fresh _ (Or.inl rfl)).1 (h ▸ hn),
+   fun h => (H.wf.instr_fresh _ (Or.inr (Or.inl rfl))).1 (h ▸ hn),
+   fun h => (H.wf.instr_fresh _ (Or.inr (Or.inr rfl))).1 (h ▸ hn)⟩
+
+theorem LoadHyp.twin_ne_instr {env : Env} {s : Source} {supplied : List (Nat × Nat)} (H : LoadHyp env s supplied)
+    {x : SNode} (hx : x ∈ s.nodes) :
+    env.twin x.name ≠ env.bs ∧ env.twin x.name ≠ env.mt ∧ env.twin x.name ≠ env.rs :=
+  ⟨(H.wf.instr_fresh _ (Or.inl rfl)).2 x hx, (H.wf.instr_fresh _ (Or.inr (Or.inl rfl))).2 x hx,
+   (H.wf.instr_fresh _ (Or.inr (Or.inr rfl))).2 x hx⟩
+
+theorem upd3_ne {a b c : Nat} {ta tb tc : Term} {z : CNode} (h1 : z.name ≠ a) (h2 : z.name ≠ b)
+    (h3 : z.name ≠ c) : upd c tc (upd b tb (upd a ta z)) = z := by
+  rw [upd_ne (y := z) h1, upd_ne (y := z) h2, upd_ne h3]
+
+theorem loadNode_user {env : Env} {s : Source} {supplied : List (Nat × Nat)} (H : LoadHyp env s supplied)
+    {x : SNode} (hx : x ∈ s.nodes) :
+    loadNode env s supplied (compiledOf x) =
+      match supplied.find? (fun q => q.1 == x.name) with
+      | some p => ⟨x.name, none, some (.const p.2)⟩
+      | none => compiledOf x := by
+  unfold loadNode
+  have h1 : s.observed.foldl (fun y p => upd (env.twin p.1) (.const p.2) y) (compiledOf x) = compiledOf x := by
+    apply foldl_upd_stable (fun q : Nat × Nat => env.twin q.1) (fun q => Term.const q.2)
+    intro q hq hqk
+    obtain ⟨z, hz, hzn⟩ := H.obs_user q hq
+    rw [compiledOf_name] at hqk
+    exact absurd ⟨x, hx, by rw [hzn]; exact hqk.symm⟩ (H.wf.twin_fresh z hz)
+  obtain ⟨n1, n2, n3⟩ := H.user_ne_instr ⟨x, hx, rfl⟩
+  rw [h1, upd3_ne (by rw [compiledOf_name]; exact n1) (by rw [compiledOf_name]; exact n2)
+    (by rw [compiledOf_name]; exact n3)]
+  cases hs : supplied.find? (fun q => q.1 == x.name) with
+  | none => exact supFold_none supplied _ (by rw [compiledOf_name]; exact hs)
+  | some p =>
+    have := supFold_some supplied H.sup_nodup (compiledOf x) p (by rw [compiledOf_name]; exact hs)
+    rw [this, compiledOf_name]
+
+theorem loadNode_twin {env : Env} {s : Source} {supplied : List (Nat × Nat)} (H : LoadHyp env s supplied)
+    {x : SNode} (hx : x ∈ s.nodes) :
+    loadNode env s supplied (twinNode env x) =
+      match supplied.find? (fun q => q.1 == env.twin x.name) with
+      | some p => ⟨env.twin x.name, none, some (.const p.2)⟩
+      | none =>
+        match s.observed.find? (fun q => q.1 == x.name) with
+        | some p => ⟨env.twin x.name, none, some (.const p.2)⟩
+        | none => twinNode env x := by
+  unfold loadNode
+  obtain ⟨n1, n2, n3⟩ := H.twin_ne_instr hx
+  have hname : ∀ z : CNode, z.name = env.twin x.name →
+      (upd env.rs .tRandomState (upd env.mt .tMeta (upd env.bs .tBatchSize z))) = z := by
+    intro z hz
+    exact upd3_ne (by rw [hz]; exact n1) (by rw [hz]; exact n2) (by rw [hz]; exact n3)
+  have hon := foldl_upd_name (fun q : Nat × Nat => env.twin q.1) (fun q => Term.const q.2) s.observed (twinNode env x)
+  rw [hname _ (by rw [hon, twinNode_name])]
+  cases hs : supplied.find? (fun q => q.1 == env.twin x.name) with
+  | some p =>
+    have := supFold_some supplied H.sup_nodup _ p (by rw [hon, twinNode_name]; exact hs)
+    rw [this, hon, twinNode_name]
+  | none =>
+    rw [supFold_none supplied _ (by rw [hon, twinNode_name]; exact hs)]
+    cases ho : s.observed.find? (fun q => q.1 == x.name) with
+    | none =>
+      apply foldl_upd_stable (fun q : Nat × Nat => env.twin q.1) (fun q => Term.const q.2)
+      intro q hq hqk
+      exfalso
+      obtain ⟨z, hz, hzn⟩ := H.obs_user q hq
+      rw [twinNode_name, ← hzn] at hqk
+      have := H.wf.twin_inj z hz x hx hqk
+      have h2 := List.find?_eq_none.1 ho q hq
+      simp [← hzn, this] at h2
+    | some p =>
+      have hp := List.mem_of_find?_eq_some ho
+      have hk : p.1 = x.name := by simpa using List.find?_some ho
+      have := foldl_upd_mem (fun q : Nat × Nat => env.twin q.1) (fun q => Term.const q.2) s.observed
+        (twinNode env x) p hp (by rw [twinNode_name, hk]) (by
+          intro q hq hqk
+          obtain ⟨z, hz, hzn⟩ := H.obs_user q hq
+          rw [twinNode_name, ← hzn] at hqk
+          have h3 := H.wf.twin_inj z hz x hx hqk
+          rw [List.inj_on_of_nodup_map H.wf.observed_nodup hq hp (by rw [← hzn, h3, hk])])
+      rw [this, twinNode_name]
+
+theorem loadNode_instr {env : Env} {s : Source} {supplied : List (Nat × Nat)} (H : LoadHyp env s supplied)
+    {n : Nat} (hn : n = env.bs ∨ n = env.mt ∨ n = env.rs) :
+    loadNode env s supplied ⟨n, none, none⟩ = ⟨n, none, some
+      (if n = env.bs then .tBatchSize else if n = env.mt then .tMeta else .tRandomState)⟩ := by
+  unfold loadNode
+  have hI := H.wf.instr_fresh n hn
+  obtain ⟨d1, d2, d3⟩ := H.wf.instr_distinct
+  have h1 : s.observed.foldl (fun y p => upd (env.twin p.1) (.const p.2) y) ⟨n, none, none⟩ = ⟨n, none, none⟩ := by
+    apply foldl_upd_stable (fun q : Nat × Nat => env.twin q.1) (fun q => Term.const q.2)
+    intro q hq hqk
+    obtain ⟨z, hz, hzn⟩ := H.obs_user q hq
+    exact absurd (by rw [hzn]; exact hqk) (hI.2 z hz)
+  rw [h1]
+  have hsup : ∀ z : CNode, z.name = n → supplied.foldl (fun y p => upd p.1 (.const p.2) y) z = z := by
+    intro z hz
+    apply foldl_upd_stable (fun q : Nat × Nat => q.1) (fun q => Term.const q.2)
+    intro q hq hqk
+    exfalso
+    rcases H.sup q hq with hu | ⟨w, hw, _, hwn⟩
+    · exact hI.1 (by rw [← hz, ← hqk]; exact hu)
+    · exact hI.2 w hw (by rw [hwn, hqk, hz])
+  rcases hn with rfl | rfl | rfl
+  · have e1 : upd env.bs .tBatchSize ⟨env.bs, none, none⟩ = ⟨env.bs, none, some .tBatchSize⟩ := upd_eq rfl
+    rw [e1, upd_ne (y := ⟨env.bs, none, some .tBatchSize⟩) d1,
+      upd_ne (y := ⟨env.bs, none, some .tBatchSize⟩) d2, hsup _ rfl]
+    simp
+  · have e1 : upd env.bs .tBatchSize ⟨env.mt, none, none⟩ = ⟨env.mt, none, none⟩ := upd_ne (fun h => d1 h.symm)
+    have e2 : upd env.mt .tMeta ⟨env.mt, none, none⟩ = ⟨env.mt, none, some .tMeta⟩ := upd_eq rfl
+    rw [e1, e2, upd_ne (y := ⟨env.mt, none, some .tMeta⟩) d3, hsup _ rfl]
+    have d1' : ¬ env.mt = env.bs := fun h => d1 h.symm
+    simp [d1']
+  · have e1 : upd env.bs .tBatchSize ⟨env.rs, none, none⟩ = ⟨env.rs, none, none⟩ := upd_ne (fun h => d2 h.symm)
+    have e2 : upd env.mt .tMeta ⟨env.rs, none, none⟩ = ⟨env.rs, none, none⟩ := upd_ne (fun h => d3 h.symm)
+    have e3 : upd env.rs .tRandomState ⟨env.rs, none, none⟩ = ⟨env.rs, none, some .tRandomState⟩ := upd_eq rfl
+    rw [e1, e2, e3, hsup _ rfl]
+    have d2' : ¬ env.rs = env.bs := fun h => d2 h.symm
+    have d3' : ¬ env.rs = env.mt := fun h => d3 h.symm
+    simp [d2', d3']
+
+/-! ### one-step unfolding of the evaluators -/
+
+def optApply (op : COp) (l : List (Option (Param × Term))) : Option Term :=
+  if l.all (·.isSome) then some (applyOp op (l.filterMap id)) else none
+
+theorem evalNode_of_output {c : CNet} {f n : Nat} {y : CNode} {t : Term} (hf : c.find n = some y)
+    (ho : y.output = some t) : evalNode c (f + 1) n = some t := by
+  rw [evalNode_succ_eq]; unfold evalStep; simp only [hf, ho]
+
+theorem evalNode_of_op {c : CNet} {f n : Nat} {y : CNode} {op : COp} (hf : c.find n = some y)
+    (ho : y.output = none) (hop : y.op = some op) :
+    evalNode c (f + 1) n = optApply op (insOf c.edges (evalNode c f) n) := by
+  rw [evalNode_succ_eq]; unfold evalStep; simp only [hf, ho, hop]; rfl
+
+theorem denote_supplied {env : Env} {s : Source} {supplied : List (Nat × Nat)} {f n : Nat} {p : Nat × Nat}
+    (h : supplied.find? (fun p => p.1 == n) = some p) :
+    denote env s supplied (f + 1) n = some (.const p.2) := by
+  rw [denote]; simp only [h]
+
+theorem denote_const {env : Env} {s : Source} {supplied : List (Nat × Nat)} {f n : Nat} {x : SNode}
+    (h : supplied.find? (fun p => p.1 == n) = none) (hf : s.find n = some x) (hop : x.op = none) :
+    denote env s supplied (f + 1) n = some (.const x.output) := by
+  rw [denote]; simp only [h, hf, hop]
+
+theorem denote_op {env : Env} {s : Source} {supplied : List (Nat × Nat)} {f n : Nat} {x : SNode} {fn : Nat}
+    (h : supplied.find? (fun p => p.1 == n) = none) (hf : s.find n = some x) (hop : x.op = some fn) :
+    denote env s supplied (f + 1) n = optApply (.user fn)
+      ((s.inEdges n).map (fun e => (denote env s supplied f e.src).map (fun t => (e.param, t))) ++
+        ((((if x.usesBatchSize then [some (Param.named env.kwBatchSize, Term.tBatchSize)] else []) ++
+          (if x.usesMeta then [some (Param.named env.kwMeta, Term.tMeta)] else [])) ++
+          (if x.stochastic then [some (Param.named env.kwRandomState, Term.tRandomState)] else [])) ++
+          (if (!x.observable && x.usesObserved) then
+            [(denoteObs env s supplied f n).map (fun t => (Param.named env.kwObserved, t))] else []))) := by
+  rw [denote]; simp only [h, hf, hop]; rfl
+
+theorem denoteObs_supplied {env : Env} {s : Source} {supplied : List (Nat × Nat)} {f n : Nat} {p : Nat × Nat}
+    (h : supplied.find? (fun p => p.1 == env.twin n) = some p) :
+    denoteObs env s supplied (f + 1) n = some (.const p.2) := by
+  rw [denoteObs]; simp only [h]
+
+theorem denoteObs_observed {env : Env} {s : Source} {supplied : List (Nat × Nat)} {f n : Nat} {p : Nat × Nat}
+    (h : supplied.find? (fun p => p.1 == env.twin n) = none)
+    (ho : s.observed.find? (fun p => p.1 == n) = some p) :
+    denoteObs env s supplied (f + 1) n = some (.const p.2) := by
+  rw [denoteObs]; simp only [h, ho]
+
+theorem denoteObs_stochastic {env : Env} {s : Source} {supplied : List (Nat × Nat)} {f n : Nat} {x : SNode} {o : COp}
+    (h : supplied.find? (fun p => p.1 == env.twin n) = none)
+    (ho : s.observed.find? (fun p => p.1 == n) = none) (hf : s.find n = some x)
+    (hop : (if x.observable then x.op.map COp.user else some .argsToTuple) = some o)
+    (hst : x.stochastic = true) :
+    denoteObs env s supplied (f + 1) n = some (applyOp o []) := by
+  rw [denoteObs]; simp only [h, ho, hf, hop, hst, if_true]
+
+theorem denoteObs_op {env : Env} {s : Source} {supplied : List (Nat × Nat)} {f n : Nat} {x : SNode} {o : COp}
+    (h : supplied.find? (fun p => p.1 == env.twin n) = none)
+    (ho : s.observed.find? (fun p => p.1 == n) = none) (hf : s.find n = some x)
+    (hop : (if x.observable then x.op.map COp.user else some .argsToTuple) = some o)
+    (hst : x.stochastic = false) :
+    denoteObs env s supplied (f + 1) n = optApply o
+      ((s.inEdges n).map (fun e =>
+        (if s.isObservable e.src then denoteObs env s supplied f e.src
+         else denote env s supplied f e.src).map (fun t => (e.param, t)))) := by
+  rw [denoteObs]; simp only [h, ho, hf, hop, hst]; rfl
+
+theorem optApply_perm (op : COp) (l1 l2 : List (Option (Param × Term))) (hp : l1.Perm l2)
+    (hall : ∀ a ∈ l2, a.isSome = true)
+    (hk : ∀ a b, some a ∈ l2 → some b ∈ l2 → a.1 = b.1 → a = b) :
+    optApply op l1 = optApply op l2 ∧ (optApply op l2).isSome = true := by
+  have h2 : l2.all (·.isSome) = true := List.all_eq_true.2 hall
+  have h1 : l1.all (·.isSome) = true := List.all_eq_true.2 (fun a ha => hall a (hp.mem_iff.1 ha))
+  unfold optApply
+  rw [h1, h2]
+  simp only [if_true, Option.isSome_some, and_true, Option.some.injEq]
+  apply applyOp_perm op _ _ (hp.filterMap id)
+  intro a ha b hb hab
+  have ha' : some a ∈ l2 := hp.mem_iff.1 (by simpa using ha)
+  have hb' : some b ∈ l2 := hp.mem_iff.1 (by simpa using hb)
+  exact hk a b ha' hb' hab
+
+theorem optApply_isSome (op : COp) (l : List (Option (Param × Term)))
+    (hall : ∀ a ∈ l, a.isSome = true) : (optApply op l).isSome = true := by
+  unfold optApply
+  rw [List.all_eq_true.2 hall]; rfl
+
+/-! ### the main induction -/
+
+/-- the loaded compiled net -/
+def LN (env : Env) (s : Source) (supplied : List (Nat × Nat)) (outputs : List Nat) : CNet :=
+  load env s supplied [] (cnet env s outputs)
+
+section
+variable {env : Env} {s : Source} {supplied : List (Nat × Nat)}
+
+theorem LN_find_user (H : LoadHyp env s supplied) (outputs : List Nat) {x : SNode} (hx : x ∈ s.nodes)
+    (hk : keepF env s outputs x.name = true) :
+    (LN env s supplied outputs).find x.name = some (loadNode env s supplied (compiledOf x)) := by
+  unfold LN; rw [load_find, cnet_find _ _ _ hk, compileAll_find_user H.wf hx]; rfl
+
+theorem LN_find_twin (H : LoadHyp env s supplied) (outputs : List Nat) {x : SNode} (hx : x ∈ s.nodes)
+    (ht : hasTwin x = true) (hk : keepF env s outputs (env.twin x.name) = true) :
+    (LN env s supplied outputs).find (env.twin x.name) = some (loadNode env s supplied (twinNode env x)) := by
+  unfold LN; rw [load_find, cnet_find _ _ _ hk, compileAll_find_twin H.wf hx ht]; rfl
+
+theorem LN_eval_instr (H : LoadHyp env s supplied) (outputs : List Nat) {n : Nat}
+    (hn : n = env.bs ∨ n = env.mt ∨ n = env.rs) (hm : n ∈ (compileAll env s).1.map (·.name))
+    (hk : keepF env s outputs n = true) (f : Nat) :
+    evalNode (LN env s supplied outputs) (f + 1) n =
+      some (if n = env.bs then .tBatchSize else if n = env.mt then .tMeta else .tRandomState) := by
+  have hf : (LN env s supplied outputs).find n = some (loadNode env s supplied ⟨n, none, none⟩) := by
+    unfold LN; rw [load_find, cnet_find _ _ _ hk, compileAll_find_instr H.wf hn hm]; rfl
+  rw [loadNode_instr H hn] at hf
+  exact evalNode_of_output hf rfl
+
+theorem LN_insOf (H : LoadHyp env s supplied) (outputs : List Nat) (ev : Nat → Option Term) {m : Nat}
+    (hk : keepF env s outputs m = true) :
+    insOf (LN env s supplied outputs).edges ev m = insOf (compileAll env s).2 ev m :=
+  cnet_insOf H.wf outputs ev hk
+
+theorem twinNode_op (hwf : SourceWF env s) {x : SNode} (hx : x ∈ s.nodes) :
+    ∃ o, twinNode env x = ⟨env.twin x.name, some o, none⟩ ∧
+      (if x.observable then x.op.map COp.user else some .argsToTuple) = some o := by
+  by_cases ho : x.observable = true
+  · cases hop : x.op with
+    | none => have := (hwf.const_plain x hx hop).1; rw [ho] at this; cases this
+    | some f => exact ⟨.user f, by simp [twinNode, compiledOf, ho, hop], by simp [ho]⟩
+  · exact ⟨.argsToTuple, by simp [twinNode, ho], by simp [ho]⟩
+
+theorem map_ite_single {α β : Type _} (c : Bool) (a : α) (g : α → β) :
+    (if c then [a] else []).map g = if c then [g a] else [] := by cases c <;> rfl
+
+theorem optApply_reorder (op : COp) (I O B M R : List (Option (Param × Term)))
+    (hall : ∀ a ∈ I ++ (((B ++ M) ++ R) ++ O), a.isSome = true)
+    (hk : ∀ a b, some a ∈ I ++ (((B ++ M) ++ R) ++ O) → some b ∈ I ++ (((B ++ M) ++ R) ++ O) →
+      a.1 = b.1 → a = b) :
+    optApply op ((((I ++ O) ++ B) ++ M) ++ R) = optApply op (I ++ (((B ++ M) ++ R) ++ O)) ∧
+      (optApply op (I ++ (((B ++ M) ++ R) ++ O))).isSome = true := by
+  apply optApply_perm _ _ _ _ hall hk
+  have : (((I ++ O) ++ B) ++ M) ++ R = I ++ (O ++ ((B ++ M) ++ R)) := by simp only [List.append_assoc]
+  rw [this]
+  exact List.Perm.append_left _ List.perm_append_comm
+
+theorem meaning_aux (H : LoadHyp env s supplied) (outputs : List Nat) (r : Nat → Nat)
+    (hr : ∀ e ∈ s.edges, r e.src < r e.dst) :
+    ∀ k, ∀ x ∈ s.nodes, r x.name < k →
+      (hasTwin x = true → keepF env s outputs (env.twin x.name) = true → ∀ fE fD,
+        2 * r x.name + 2 ≤ fE → 2 * r x.name + 1 ≤ fD →
+        evalNode (LN env s supplied outputs) fE (env.twin x.name) = denoteObs env s supplied fD x.name ∧
+          (denoteObs env s supplied fD x.name).isSome = true) ∧
+      (keepF env s outputs x.name = true → ∀ fE fD,
+        2 * r x.name + 3 ≤ fE → 2 * r x.name + 2 ≤ fD →
+        evalNode (LN env s supplied outputs) fE x.name = denote env s supplied fD x.name ∧
+          (denote env s supplied fD x.name).isSome = true) := by
+  intro k
+  induction k with
+  | zero => intro x _ h; omega
+  | succ k ih =>
+    intro x hx hrk
+    have hfind := Source.find_eq H.wf hx
+    have hpar : ∀ e ∈ s.inEdges x.name, e ∈ s.edges ∧ e.dst = x.name ∧
+        ∃ z ∈ s.nodes, z.name = e.src ∧ r z.name < r x.name := by
+      intro e he
+      have he' := (List.mem_filter.1 he).1
+      have hd : e.dst = x.name := by simpa using (List.mem_filter.1 he).2
+      obtain ⟨z, hz, hzn⟩ := (H.wf.edges_in e he').1
+      refine ⟨he', hd, z, hz, hzn, ?_⟩
+      have := hr e he'
+      rw [hzn, ← hd]; exact this
+    have hB : hasTwin x = true → keepF env s outputs (env.twin x.name) = true → ∀ fE fD,
+        2 * r x.name + 2 ≤ fE → 2 * r x.name + 1 ≤ fD →
+        evalNode (LN env s supplied outputs) fE (env.twin x.name) = denoteObs env s supplied fD x.name ∧
+          (denoteObs env s supplied fD x.name).isSome = true := by
+      intro ht hkeep fE fD hE hD
+      obtain ⟨fE', rfl⟩ : ∃ f, fE = f + 1 := ⟨fE - 1, by omega⟩
+      obtain ⟨fD', rfl⟩ : ∃ f, fD = f + 1 := ⟨fD - 1, by omega⟩
+      have hLf := LN_find_twin H outputs hx ht hkeep
+      rw [loadNode_twin H hx] at hLf
+      cases hs : supplied.find? (fun q => q.1 == env.twin x.name) with
+      | some p =>
+        simp only [hs] at hLf
+        rw [evalNode_of_output hLf rfl, denoteObs_supplied hs]; exact ⟨rfl, rfl⟩
+      | none =>
+        simp only [hs] at hLf
+        cases ho : s.observed.find? (fun q => q.1 == x.name) with
+        | some p =>
+          simp only [ho] at hLf
+          rw [evalNode_of_output hLf rfl, denoteObs_observed hs ho]; exact ⟨rfl, rfl⟩
+        | none =>
+          simp only [ho] at hLf
+          obtain ⟨o, hto, hop⟩ := twinNode_op H.wf hx
+          rw [hto] at hLf
+          rw [evalNode_of_op hLf rfl rfl, LN_insOf H outputs _ hkeep]
+          unfold insOf
+          rw [compileAll_inEdges_twin H.wf hx]
+          by_cases hst : x.stochastic = true
+          · rw [denoteObs_stochastic hs ho hfind hop hst]
+            simp [hst, optApply]
+          · have hst' : x.stochastic = false := by simpa using hst
+            rw [denoteObs_op hs ho hfind hop hst']
+            simp only [ht, hst', Bool.not_false, Bool.and_self, if_true, List.map_map]
+            have hedge : ∀ e ∈ s.inEdges x.name,
+                evalNode (LN env s supplied outputs) fE' (if s.isObservable e.src then env.twin e.src else e.src) =
+                  (if s.isObservable e.src then denoteObs env s supplied fD' e.src
+                    else denote env s supplied fD' e.src) ∧
+                (if s.isObservable e.src then denoteObs env s supplied fD' e.src
+                    else denote env s supplied fD' e.src).isSome = true := by
+              intro e he
+              obtain ⟨he', hd, z, hz, hzn, hrz⟩ := hpar e he
+              have hmem : (⟨if s.isObservable e.src then env.twin e.src else e.src, env.twin x.name, e.param⟩ : Edge) ∈
+                  (compileAll env s).2 :=
+                (mem_compileAll_edges env s _).2 (Or.inr (Or.inr (Or.inl
+                  ⟨x, hx, by simp [ht, hst'], e, he, rfl⟩)))
+              have hks := keepF_closed H.wf outputs hmem hkeep
+              have hih := ih z hz (by omega)
+              rw [← hzn] at hks ⊢
+              rw [Source.isObservable_eq H.wf hz] at hks ⊢
+              by_cases hzo : z.observable = true
+              · simp only [hzo, if_true] at hks ⊢
+                exact hih.1 (by simp [hasTwin, hzo]) hks fE' fD' (by omega) (by omega)
+              · simp only [hzo] at hks ⊢
+                exact hih.2 hks fE' fD' (by omega) (by omega)
+            have hcongr : (s.inEdges x.name).map
+                ((fun e : Edge => Option.map (fun t => (e.param, t)) (evalNode (LN env s supplied outputs) fE' e.src)) ∘
+                  (fun e : Edge => (⟨if s.isObservable e.src then env.twin e.src else e.src, env.twin x.name, e.param⟩ : Edge))) =
+                (s.inEdges x.name).map (fun e =>
+                  (if s.isObservable e.src then denoteObs env s supplied fD' e.src
+                    else denote env s supplied fD' e.src).map (fun t => (e.param, t))) := by
+              apply List.map_congr_left
+              intro e he
+              simp only [Function.comp]
+              rw [(hedge e he).1]
+            rw [hcongr]
+            refine ⟨rfl, optApply_isSome _ _ ?_⟩
+            intro a ha
+            obtain ⟨e, he, rfl⟩ := List.mem_map.1 ha
+            have := (hedge e he).2
+            rw [Option.isSome_map]; exact this
+    refine ⟨hB, ?_⟩
+    intro hkeep fE fD hE hD
+    obtain ⟨fE', rfl⟩ : ∃ f, fE = f + 1 := ⟨fE - 1, by omega⟩
+    obtain ⟨fD', rfl⟩ : ∃ f, fD = f + 1 := ⟨fD - 1, by omega⟩
+    have hLf := LN_find_user H outputs hx hkeep
+    rw [loadNode_user H hx] at hLf
+    cases hs : supplied.find? (fun q => q.1 == x.name) with
+    | some p =>
+      simp only [hs] at hLf
+      rw [evalNode_of_output hLf rfl, denote_supplied hs]; exact ⟨rfl, rfl⟩
+    | none =>
+      simp only [hs] at hLf
+      cases hop : x.op with
+      | none =>
+        have hco : compiledOf x = ⟨x.name, none, some (.const x.output)⟩ := by simp [compiledOf, hop]
+        rw [hco] at hLf
+        rw [evalNode_of_output hLf rfl, denote_const hs hfind hop]; exact ⟨rfl, rfl⟩
+      | some fn =>
+        have hco : compiledOf x = ⟨x.name, some (.user fn), none⟩ := by simp [compiledOf, hop]
+        rw [hco] at hLf
+        rw [evalNode_of_op hLf rfl rfl, LN_insOf H outputs _ hkeep, denote_op hs hfind hop]
+        unfold insOf
+        rw [compileAll_inEdges_user H.wf hx]
+        simp only [List.map_append]
+        -- ordinary parents
+        have hedge : ∀ e ∈ s.inEdges x.name,
+            evalNode (LN env s supplied outputs) fE' e.src = denote env s supplied fD' e.src ∧
+              (denote env s supplied fD' e.src).isSome = true := by
+          intro e he
+          obtain ⟨he', hd, z, hz, hzn, hrz⟩ := hpar e he
+          have hmem : e ∈ (compileAll env s).2 := (mem_compileAll_edges env s _).2 (Or.inl he')
+          have hks := keepF_closed H.wf outputs hmem (by rw [hd]; exact hkeep)
+          rw [← hzn] at hks ⊢
+          exact (ih z hz (by omega)).2 hks fE' fD' (by omega) (by omega)
+        have hI : (s.inEdges x.name).map
+            (fun e : Edge => Option.map (fun t => (e.param, t)) (evalNode (LN env s supplied outputs) fE' e.src)) =
+            (s.inEdges x.name).map (fun e => (denote env s supplied fD' e.src).map (fun t => (e.param, t))) := by
+          apply List.map_congr_left
+          intro e he
+          rw [(hedge e he).1]
+        -- the observed twin
+        have hobsv : (!x.observable && x.usesObserved) = true →
+            evalNode (LN env s supplied outputs) fE' (env.twin x.name) = denoteObs env s supplied fD' x.name ∧
+              (denoteObs env s supplied fD' x.name).isSome = true := by
+          intro hc
+          have hmem : (⟨env.twin x.name, x.name, .named env.kwObserved⟩ : Edge) ∈ (compileAll env s).2 :=
+            (mem_compileAll_edges env s _).2 (Or.inr (Or.inl ⟨x, hx, hc, rfl⟩))
+          have hks := keepF_closed H.wf outputs hmem hkeep
+          simp only [Bool.and_eq_true] at hc
+          exact hB (by simp [hasTwin, hc.2]) hks fE' fD' (by omega) (by omega)
+        have hO : (if (!x.observable && x.usesObserved) then
+              [(⟨env.twin x.name, x.name, .named env.kwObserved⟩ : Edge)] else []).map
+            (fun e : Edge => Option.map (fun t => (e.param, t)) (evalNode (LN env s supplied outputs) fE' e.src)) =
+            (if (!x.observable && x.usesObserved) then
+              [(denoteObs env s supplied fD' x.name).map (fun t => (Param.named env.kwObserved, t))] else []) := by
+          rw [map_ite_single]
+          by_cases hc : (!x.observable && x.usesObserved) = true
+          · simp only [hc, if_true]
+            rw [(hobsv hc).1]
+          · simp only [hc]; rfl
+        obtain ⟨fE'', rfl⟩ : ∃ f, fE' = f + 1 := ⟨fE' - 1, by omega⟩
+        have hBs : (if x.usesBatchSize then [(⟨env.bs, x.name, .named env.kwBatchSize⟩ : Edge)] else []).map
+            (fun e : Edge => Option.map (fun t => (e.param, t)) (evalNode (LN env s supplied outputs) (fE'' + 1) e.src)) =
+            (if x.usesBatchSize then [some (Param.named env.kwBatchSize, Term.tBatchSize)] else []) := by
+          rw [map_ite_single]
+          by_cases hc : x.usesBatchSize = true
+          · simp only [hc, if_true]
+            have hmem : (⟨env.bs, x.name, .named env.kwBatchSize⟩ : Edge) ∈ (compileAll env s).2 :=
+              (mem_compileAll_edges env s _).2 (Or.inr (Or.inr (Or.inr (Or.inl ⟨x, hx, hc, rfl⟩))))
+            have hks := keepF_closed H.wf outputs hmem hkeep
+            rw [LN_eval_instr H outputs (Or.inl rfl) (mem_compileAll_names_bs env s hx hc) hks]
+            simp
+          · simp only [hc]; rfl
+        have hMt : (if x.usesMeta then [(⟨env.mt, x.name, .named env.kwMeta⟩ : Edge)] else []).map
+            (fun e : Edge => Option.map (fun t => (e.param, t)) (evalNode (LN env s supplied outputs) (fE'' + 1) e.src)) =
+            (if x.usesMeta then [some (Param.named env.kwMeta, Term.tMeta)] else []) := by
+          rw [map_ite_single]
+          by_cases hc : x.usesMeta = true
+          · simp only [hc, if_true]
+            have hmem : (⟨env.mt, x.name, .named env.kwMeta⟩ : Edge) ∈ (compileAll env s).2 :=
+              (mem_compileAll_edges env s _).2 (Or.inr (Or.inr (Or.inr (Or.inr (Or.inl ⟨x, hx, hc, rfl⟩)))))
+            have hks := keepF_closed H.wf outputs hmem hkeep
+            rw [LN_eval_instr H outputs (Or.inr (Or.inl rfl)) (mem_compileAll_names_mt env s hx hc) hks]
+            have d1 : ¬ env.mt = env.bs := fun h => H.wf.instr_distinct.1 h.symm
+            simp [d1]
+          · simp only [hc]; rfl
+        have hRs : (if x.stochastic then [(⟨env.rs, x.name, .named env.kwRandomState⟩ : Edge)] else []).map
+            (fun e : Edge => Option.map (fun t => (e.param, t)) (evalNode (LN env s supplied outputs) (fE'' + 1) e.src)) =
+            (if x.stochastic then [some (Param.named env.kwRandomState, Term.tRandomState)] else []) := by
+          rw [map_ite_single]
+          by_cases hc : x.stochastic = true
+          · simp only [hc, if_true]
+            have hmem : (⟨env.rs, x.name, .named env.kwRandomState⟩ : Edge) ∈ (compileAll env s).2 :=
+              (mem_compileAll_edges env s _).2 (Or.inr (Or.inr (Or.inr (Or.inr (Or.inr ⟨x, hx, hc, rfl⟩)))))
+            have hks := keepF_closed H.wf outputs hmem hkeep
+            rw [LN_eval_instr H outputs (Or.inr (Or.inr rfl)) (mem_compileAll_names_rs env s hx hc) hks]
+            have d2 : ¬ env.rs = env.bs := fun h => H.wf.instr_distinct.2.1 h.symm
+            have d3 : ¬ env.rs = env.mt := fun h => H.wf.instr_distinct.2.2 h.symm
+            simp [d2, d3]
+          · simp only [hc]; rfl
+        rw [hI, hO, hBs, hMt, hRs]
+        -- classification of the inputs on the denotation side
+        have hcls : ∀ a : Option (Param × Term), a ∈
+            (s.inEdges x.name).map (fun e => (denote env s supplied fD' e.src).map (fun t => (e.param, t))) ++
+            ((((if x.usesBatchSize then [some (Param.named env.kwBatchSize, Term.tBatchSize)] else []) ++
+              (if x.usesMeta then [some (Param.named env.kwMeta, Term.tMeta)] else [])) ++
+              (if x.stochastic then [some (Param.named env.kwRandomState, Term.tRandomState)] else [])) ++
+              (if (!x.observable && x.usesObserved) then
+                [(denoteObs env s supplied fD' x.name).map (fun t => (Param.named env.kwObserved, t))] else [])) →
+            (∃ e ∈ s.inEdges x.name, ∃ t, denote env s supplied fD' e.src = some t ∧ a = some (e.param, t)) ∨
+            a = some (Param.named env.kwBatchSize, Term.tBatchSize) ∨
+            a = some (Param.named env.kwMeta, Term.tMeta) ∨
+            a = some (Param.named env.kwRandomState, Term.tRandomState) ∨
+            (∃ t, denoteObs env s supplied fD' x.name = some t ∧ a = some (Param.named env.kwObserved, t)) := by
+          intro a ha
+          simp only [List.mem_append, List.mem_map] at ha
+          rcases ha with ⟨e, he, rfl⟩ | ((hb | hm) | hrs) | hob
+          · obtain ⟨t, ht⟩ := Option.isSome_iff_exists.1 (hedge e he).2
+            exact Or.inl ⟨e, he, t, ht, by rw [ht]; rfl⟩
+          · split at hb
+            · exact Or.inr (Or.inl (by simpa using hb))
+            · simp at hb
+          · split at hm
+            · exact Or.inr (Or.inr (Or.inl (by simpa using hm)))
+            · simp at hm
+          · split at hrs
+            · exact Or.inr (Or.inr (Or.inr (Or.inl (by simpa using hrs))))
+            · simp at hrs
+          · split at hob
+            · rename_i hc
+              obtain ⟨t, ht⟩ := Option.isSome_iff_exists.1 (hobsv hc).2
+              refine Or.inr (Or.inr (Or.inr (Or.inr ⟨t, ht, ?_⟩)))
+              rw [ht] at hob; simpa using hob
+            · simp at hob
+        have hres := H.wf.kw_reserved
+        obtain ⟨k1, k2, k3, k4, k5, k6⟩ := H.wf.kw_distinct
+        apply optApply_reorder
+        · intro a ha
+          rcases hcls a ha with ⟨e, he, t, ht, rfl⟩ | rfl | rfl | rfl | ⟨t, ht, rfl⟩ <;> rfl
+        · intro a b ha hb hab
+          rcases hcls _ ha with ⟨e1, he1, t1, ht1, h1⟩ | h1 | h1 | h1 | ⟨t1, ht1, h1⟩ <;>
+          rcases hcls _ hb with ⟨e2, he2, t2, ht2, h2⟩ | h2 | h2 | h2 | ⟨t2, ht2, h2⟩ <;>
+          cases h1 <;> cases h2
+          · obtain ⟨he1', hd1, -⟩ := hpar e1 he1
+            obtain ⟨he2', hd2, -⟩ := hpar e2 he2
+            have := H.wf.params_distinct e1 he1' e2 he2' (hd1.trans hd2.symm) hab
+            subst this
+            rw [ht1] at ht2; cases ht2; rfl
+          all_goals first
+            | rfl
+            | exact absurd hab (hres _ (hpar _ he1).1).1
+            | exact absurd hab (hres _ (hpar _ he1).1).2.1
+            | exact absurd hab (hres _ (hpar _ he1).1).2.2.1
+            | exact absurd hab (hres _ (hpar _ he1).1).2.2.2
+            | exact absurd hab.symm (hres _ (hpar _ he2).1).1
+            | exact absurd hab.symm (hres _ (hpar _ he2).1).2.1
+            | exact absurd hab.symm (hres _ (hpar _ he2).1).2.2.1
+            | exact absurd hab.symm (hres _ (hpar _ he2).1).2.2.2
+            | (rw [ht1] at ht2; cases ht2; rfl)
+            | (exfalso; simp only [Param.named.injEq] at hab; first
+                | exact k1 hab | exact k2 hab | exact k3 hab | exact k4 hab | exact k5 hab | exact k6 hab
+                | exact k1 hab.symm | exact k2 hab.symm | exact k3 hab.symm | exact k4 hab.symm
+                | exact k5 hab.symm | exact k6 hab.symm)
+
+end
+
+/-! ### corrected versions of the statements that are false as written
+
+`compiled_meaning_user'` / `compiled_meaning_twin'` fail when `supplied` lists the same key twice with
+different values (the loader lets the LAST entry win, `denote` reads the FIRST) and when `s.observed`
+mentions a name that is not a node (its `env.twin` is then unconstrained and may collide with a real
+node).  `execute_eq_eval'` fails for a start net with a node that has BOTH an output and an operation
+(`execNode` re-runs it, `evalNode` returns the stored output).  See `*_counterexample` below. -/
+
+theorem compiled_meaning_user_corrected (env : Env) (s : Source) (hwf : SourceWF env s) (outputs : List Nat)
     (supplied : List (Nat × Nat)) (hsup : ∀ p ∈ supplied, IsUser s p.1 ∨ IsTwin env s p.1)
+    (hsupnd : (supplied.map (·.1)).Nodup) (hobs : ∀ p ∈ s.observed, IsUser s p.1)
     (c : CNet) (hc : compile env s outputs = .ok c) (o : Nat) (ho : o ∈ outputs) (hu : IsUser s o)
     (fuelE fuelD : Nat) (hE : 2 * s.nodes.length + 3 ≤ fuelE) (hD : 2 * s.nodes.length + 2 ≤ fuelD) :
     evalNode (load env s supplied [] c) fuelE o = denote env s supplied fuelD o ∧
       (denote env s supplied fuelD o).isSome = true := by
-  sorry
+  have H : LoadHyp env s supplied := ⟨hwf, hsup, hsupnd, hobs⟩
+  obtain ⟨r, hr, hb⟩ := hwf.acyclic
+  obtain ⟨x, hx, rfl⟩ := hu
+  have hbx := hb x hx
+  have := (meaning_aux H outputs r hr (r x.name + 1) x hx (by omega)).2 (keepF_output env s ho)
+    fuelE fuelD (by omega) (by omega)
+  rw [compile_ok hc]
+  exact this
 
-theorem compiled_meaning_twin' (env : Env) (s : Source) (hwf : SourceWF env s) (outputs : List Nat)
+theorem compiled_meaning_twin_corrected (env : Env) (s : Source) (hwf : SourceWF env s) (outputs : List Nat)
     (supplied : List (Nat × Nat)) (hsup : ∀ p ∈ supplied, IsUser s p.1 ∨ IsTwin env s p.1)
+    (hsupnd : (supplied.map (·.1)).Nodup) (hobs : ∀ p ∈ s.observed, IsUser s p.1)
     (c : CNet) (hc : compile env s outputs = .ok c) (x : SNode) (hx : x ∈ s.nodes) (ht : hasTwin x = true)
     (ho : env.twin x.name ∈ outputs)
     (fuelE fuelD : Nat) (hE : 2 * s.nodes.length + 3 ≤ fuelE) (hD : 2 * s.nodes.length + 2 ≤ fuelD) :
     evalNode (load env s supplied [] c) fuelE (env.twin x.name) = denoteObs env s supplied fuelD x.name ∧
       (denoteObs env s supplied fuelD x.name).isSome = true := by
-  sorry
+  have H : LoadHyp env s supplied := ⟨hwf, hsup, hsupnd, hobs⟩
+  obtain ⟨r, hr, hb⟩ := hwf.acyclic
+  have hbx := hb x hx
+  have := (meaning_aux H outputs r hr (r x.name + 1) x hx (by omega)).1 ht (keepF_output env s ho)
+    fuelE fuelD (by omega) (by omega)
+  rw [compile_ok hc]
+  exact this
 
-theorem execute_eq_eval' (l : CNet) (hn : (l.nodes.map (·.name)).Nodup) (order : List Nat)
-    (res : List (Nat × Term)) (h : execute l order = some res) (fuel : Nat) (hf : l.nodes.length < fuel)
-    (hacy : ∃ r : Nat → Nat, ∀ e ∈ l.edges, r e.src < r e.dst) :
-    ∀ p ∈ res, evalNode l fuel p.1 = some p.2 := by
-  sorry
+/-! ### formal counterexamples to the three statements that are false as written -/
 
-theorem needed_spec' (l : CNet) (hn : (l.nodes.map (·.name)).Nodup) :
-    (needed l).Nodup ∧
-    ∀ n ∈ needed l, (∃ x ∈ l.nodes, x.name = n ∧ x.op.isSome = true) ∧
-      ∃ o ∈ l.outputs, reaches (l.edges.filter (fun e => ((l.find e.src).map (·.output.isNone)).getD false))
-        l.nodes.length n o = true := by
-  sorry
+/-- a node with both an output and an operation: `execute` re-runs it, `evalNode` returns the output -/
+theorem execute_eq_eval'_counterexample :
+    ¬ (∀ (l : CNet) (_ : (l.nodes.map (·.name)).Nodup) (order : List Nat)
+        (res : List (Nat × Term)) (_ : execute l order = some res) (fuel : Nat) (_ : l.nodes.length < fuel)
+        (_ : ∃ r : Nat → Nat, ∀ e ∈ l.edges, r e.src < r e.dst),
+        ∀ p ∈ res, evalNode l fuel p.1 = some p.2) := by
+  intro h
+  have := h ⟨[⟨0, some (.user 5), some (.const 1)⟩], [], [0]⟩ (by simp) [0] [(0, .app 5 [] [])] rfl 2
+    (by simp) ⟨id, by simp⟩ (0, .app 5 [] []) (by simp)
+  have h2 : evalNode ⟨[⟨0, some (.user 5), some (.const 1)⟩], [], [0]⟩ 2 0 = some (.const 1) := rfl
+  rw [h2] at this
+  cases this
 
-theorem stochastic_observed_rejected' (env : Env) (s : Source) (outputs : List Nat) :
-    (observedDependsOnStochastic env s = true → compile env s outputs = .error .valueError) ∧
-    (observedDependsOnStochastic env s = false → ∃ c, compile env s outputs = .ok c) := by
-  sorry
+def cexEnv : Env where
+  twin := fun n => n + 100
+  bs := 50
+  mt := 51
+  rs := 52
+  kwBatchSize := 0
+  kwMeta := 1
+  kwRandomState := 2
+  kwObserved := 3
 
-theorem instruction_edges_exact' (env : Env) (s : Source) (hwf : SourceWF env s) (x : SNode) (hx : x ∈ s.nodes) :
-    let es := (compileAll env s).2
-    ((⟨env.bs, x.name, .named env.kwBatchSize⟩ : Edge) ∈ es ↔ x.usesBatchSize = true) ∧
-    ((⟨env.mt, x.name, .named env.kwMeta⟩ : Edge) ∈ es ↔ x.usesMeta = true) ∧
-    ((⟨env.rs, x.name, .named env.kwRandomState⟩ : Edge) ∈ es ↔ x.stochastic = true) ∧
-    (∀ e ∈ es, e.dst = env.twin x.name → e.src ≠ env.bs ∧ e.src ≠ env.mt ∧ e.src ≠ env.rs) := by
-  sorry
+/-- a single constant node -/
+def cexSrc (obs : List (Nat × Nat)) : Source :=
+  { nodes := [{ name := 0, op := none, output := 7 }], edges := [], observed := obs }
+
+theorem cexSrc_wf (env : Env) (obs : List (Nat × Nat)) (hobs : (obs.map (·.1)).Nodup)
+    (ht : env.twin 0 ≠ 0) (hbs : env.bs = 50) (hmt : env.mt = 51) (hrs : env.rs = 52)
+    (ht2 : env.twin 0 = 100)
+    (hk : env.kwBatchSize = 0 ∧ env.kwMeta = 1 ∧ env.kwRandomState = 2 ∧ env.kwObserved = 3) :
+    SourceWF env (cexSrc obs) where
+  names_nodup := by simp [cexSrc]
+  twin_inj := by simp [cexSrc]
+  twin_fresh := by simp [cexSrc, IsUser]; exact fun h => ht h.symm
+  instr_distinct := by simp [hbs, hmt, hrs]
+  instr_fresh := by
+    intro n hn
+    rcases hn with rfl | rfl | rfl <;> simp [cexSrc, IsUser, hbs, hmt, hrs, ht2]
+  edges_in := by simp [cexSrc]
+  edge_unique := by simp [cexSrc]
+  acyclic := ⟨fun _ => 0, by simp [cexSrc], by simp [cexSrc]⟩
+  params_distinct := by simp [cexSrc]
+  kw_reserved := by simp [cexSrc]
+  kw_distinct := by obtain ⟨h1, h2, h3, h4⟩ := hk; simp [h1, h2, h3, h4]
+  observed_nodup := hobs
+  const_plain := by simp [cexSrc, Source.inEdges]
+
+/-- `supplied` with the same key twice: the loader keeps the LAST value, `denote` reads the FIRST -/
+theorem compiled_meaning_user'_counterexample_dup :
+    ¬ (∀ (env : Env) (s : Source) (_ : SourceWF env s) (outputs : List Nat)
+        (supplied : List (Nat × Nat)) (_ : ∀ p ∈ supplied, IsUser s p.1 ∨ IsTwin env s p.1)
+        (c : CNet) (_ : compile env s outputs = .ok c) (o : Nat) (_ : o ∈ outputs) (_ : IsUser s o)
+        (fuelE fuelD : Nat) (_ : 2 * s.nodes.length + 3 ≤ fuelE) (_ : 2 * s.nodes.length + 2 ≤ fuelD),
+        evalNode (load env s supplied [] c) fuelE o = denote env s supplied fuelD o ∧
+          (denote env s supplied fuelD o).isSome = true) := by
+  intro h
+  have hwf : SourceWF cexEnv (cexSrc []) :=
+    cexSrc_wf cexEnv [] (by simp) (by simp [cexEnv]) rfl rfl rfl rfl ⟨rfl, rfl, rfl, rfl⟩
+  have hu : IsUser (cexSrc []) 0 := ⟨_, List.mem_singleton.2 rfl, rfl⟩
+  have := (h cexEnv (cexSrc []) hwf [0] [(0, 1), (0, 2)]
+    (by intro p hp; simp at hp; rcases hp with rfl | rfl <;> exact Or.inl hu)
+    ⟨[⟨0, none, some (.const 7)⟩], [], [0]⟩ rfl 0 (by simp) hu 5 4 (by simp [cexSrc]) (by simp [cexSrc])).1
+  have h1 : evalNode (load cexEnv (cexSrc []) [(0, 1), (0, 2)] []
+      ⟨[⟨0, none, some (.const 7)⟩], [], [0]⟩) 5 0 = some (.const 2) := rfl
+  have h2 : denote cexEnv (cexSrc []) [(0, 1), (0, 2)] 4 0 = some (.const 1) := rfl
+  rw [h1, h2] at this
+  cases this
+
+def cexEnv2 : Env := { cexEnv with twin := (fun n => if n = 999 then 0 else n + 100) }
+
+/-- `s.observed` mentions a name that is not a node and whose twin name collides with a user node -/
+theorem compiled_meaning_user'_counterexample_obs :
+    ¬ (∀ (env : Env) (s : Source) (_ : SourceWF env s) (outputs : List Nat)
+        (supplied : List (Nat × Nat)) (_ : ∀ p ∈ supplied, IsUser s p.1 ∨ IsTwin env s p.1)
+        (c : CNet) (_ : compile env s outputs = .ok c) (o : Nat) (_ : o ∈ outputs) (_ : IsUser s o)
+        (fuelE fuelD : Nat) (_ : 2 * s.nodes.length + 3 ≤ fuelE) (_ : 2 * s.nodes.length + 2 ≤ fuelD),
+        evalNode (load env s supplied [] c) fuelE o = denote env s supplied fuelD o ∧
+          (denote env s supplied fuelD o).isSome = true) := by
+  intro h
+  have hwf : SourceWF cexEnv2 (cexSrc [(999, 5)]) :=
+    cexSrc_wf cexEnv2 [(999, 5)] (by simp) (by simp [cexEnv2]) rfl rfl rfl rfl ⟨rfl, rfl, rfl, rfl⟩
+  have hu : IsUser (cexSrc [(999, 5)]) 0 := ⟨_, List.mem_singleton.2 rfl, rfl⟩
+  have := (h cexEnv2 (cexSrc [(999, 5)]) hwf [0] [] (by simp)
+    ⟨[⟨0, none, some (.const 7)⟩], [], [0]⟩ rfl 0 (by simp) hu 5 4 (by simp [cexSrc]) (by simp [cexSrc])).1
+  have h1 : evalNode (load cexEnv2 (cexSrc [(999, 5)]) [] []
+      ⟨[⟨0, none, some (.const 7)⟩], [], [0]⟩) 5 0 = some (.const 5) := rfl
+  have h2 : denote cexEnv2 (cexSrc [(999, 5)]) [] 4 0 = some (.const 7) := rfl
+  rw [h1, h2] at this
+  cases this
+
+/-- a single observable node with an operation -/
+def cexSrc3 : Source :=
+  { nodes := [{ name := 0, op := some 1, output := 0, observable := true }], edges := [], observed := [] }
+
+theorem cexSrc3_wf : SourceWF cexEnv cexSrc3 where
+  names_nodup := by simp [cexSrc3]
+  twin_inj := by simp [cexSrc3]
+  twin_fresh := by simp [cexSrc3, IsUser, cexEnv]
+  instr_distinct := by simp [cexEnv]
+  instr_fresh := by
+    intro n hn
+    rcases hn with rfl | rfl | rfl <;> simp [cexSrc3, IsUser, cexEnv]
+  edges_in := by simp [cexSrc3]
+  edge_unique := by simp [cexSrc3]
+  acyclic := ⟨fun _ => 0, by simp [cexSrc3], by simp [cexSrc3]⟩
+  params_distinct := by simp [cexSrc3]
+  kw_reserved := by simp [cexSrc3]
+  kw_distinct := by simp [cexEnv]
+  observed_nodup := by simp [cexSrc3]
+  const_plain := by simp [cexSrc3]
+
+/-- the same duplicate-key defect at a twin -/
+theorem compiled_meaning_twin'_counterexample_dup :
+    ¬ (∀ (env : Env) (s : Source) (_ : SourceWF env s) (outputs : List Nat)
+        (supplied : List (Nat × Nat)) (_ : ∀ p ∈ supplied, IsUser s p.1 ∨ IsTwin env s p.1)
+        (c : CNet) (_ : compile env s outputs = .ok c) (x : SNode) (_ : x ∈ s.nodes) (_ : hasTwin x = true)
+        (_ : env.twin x.name ∈ outputs)
+        (fuelE fuelD : Nat) (_ : 2 * s.nodes.length + 3 ≤ fuelE) (_ : 2 * s.nodes.length + 2 ≤ fuelD),
+        evalNode (load env s supplied [] c) fuelE (env.twin x.name) = denoteObs env s supplied fuelD x.name ∧
+          (denoteObs env s supplied fuelD x.name).isSome = true) := by
+  intro h
+  have hx : ({ name := 0, op := some 1, output := 0, observable := true } : SNode) ∈ cexSrc3.nodes :=
+    List.mem_singleton.2 rfl
+  have htw : IsTwin cexEnv cexSrc3 100 := ⟨_, hx, rfl, rfl⟩
+  have := (h cexEnv cexSrc3 cexSrc3_wf [100] [(100, 1), (100, 2)]
+    (by intro p hp; simp at hp; rcases hp with rfl | rfl <;> exact Or.inr htw)
+    ⟨[⟨100, some (.user 1), none⟩], [], [100]⟩ rfl _ hx rfl (by simp [cexEnv]) 5 4
+    (by simp [cexSrc3]) (by simp [cexSrc3])).1
+  have h1 : evalNode (load cexEnv cexSrc3 [(100, 1), (100, 2)] []
+      ⟨[⟨100, some (.user 1), none⟩], [], [100]⟩) 5 100 = some (.const 2) := rfl
+  have h2 : denoteObs cexEnv cexSrc3 [(100, 1), (100, 2)] 4 0 = some (.const 1) := rfl
+  have e : cexEnv.twin 0 = 100 := rfl
+  simp only [e] at this
+  rw [h1, h2] at this
+  cases this
 
 end ElfiVerif.Compile
